@@ -1,58 +1,230 @@
-"""Translator for C01: Python source -> ownership programs (lean/SkNet/Generated/Effects.lean).
+"""Translator for C01: Python / Cython source -> ownership programs (lean/SkNet/Generated/Effects.lean).
 
-For every function / method of the working tree (tests excluded) it emits the statements of
+For every function / method of the working tree (tests excluded; the `.pyx` files are first turned into plain
+Python by `pyx_to_py`: C declarations and types dropped, statements kept) it emits the statements of
 SkNet/Model/Ownership.lean:  bind x fresh | bind x (param p) | bind x (alias ys) | mutate x | sortIndices x
 Control flow is dropped (the Lean semantics runs the statements in any order, any number of times).
 Calls to functions of the repository are replaced by the callee's declared summary
 (writes = parameters it may write, retAlias = parameters its result may share memory with); summaries are
 inferred here by a fixpoint and *checked* in Lean (`Fn.ok`), so a wrong inference is caught there.
 
-Trusted: the tables below (which numpy / scipy operations copy, which return views or the same buffers,
-which methods work in place) — self-tested against `np.shares_memory` by `self_test()` on every run — and the
-lowering itself. Calls into numpy / scipy that are in no table are taken to return fresh data.
+Defaults are closed: a call whose callee is in no table below and is not a function of the repository is UNKNOWN —
+its result may share memory with every argument (and the receiver) and it may write through every argument (and the
+receiver). What is known not to do so is white-listed explicitly (PURE_FUNCS / PURE_METHODS: return new data, write
+nothing; VIEW_*: return data sharing memory with the receiver / first argument; INPLACE_*: write the receiver /
+first argument) and self-tested against `np.shares_memory` by `self_test()` on every run.  Further rules:
+`out=` (and the positional `out` of a ufunc) is written and returned; `ufunc.at` writes its first argument;
+`*= /= ...` on anything (scipy sparse included) is an in-place write, `+= -=` on a sparse matrix is a re-binding
+(scipy has no in-place sparse addition; self-tested); `self.attr` is a cell shared by all methods of the class
+family: a method that stores (an alias of) a parameter in `self.attr` is charged with every in-place write any
+method of the family performs through `self.attr`; static methods, nested functions and lambdas are lowered and
+their parameters bound at the call sites (or to every argument of a call they are passed to); method calls on a
+receiver of unknown class are resolved to every method of that name in the repository.
+
+Trusted: these tables and the lowering itself (regression-tested by `NEGATIVE_TESTS`: tiny sources that must come
+out not-ok in Lean on every run).
 """
 import ast
 import os
 import re
 
-# methods / functions returning data that may share memory with their receiver / first argument
-VIEW_METHODS = {'tocsr', 'transpose', 'reshape', 'ravel', 'squeeze', 'view', 'get', 'setdefault', 'asformat',
-                'tocsc_shared', 'asfptype', 'conj', 'conjugate', 'swapaxes', 'diagonal', 'values', 'items', 'keys'}
-VIEW_FUNCS = {'csr_matrix', 'csc_matrix', 'coo_matrix', 'asarray', 'asanyarray', 'ascontiguousarray', 'atleast_1d',
-              'atleast_2d', 'ravel', 'reshape', 'squeeze', 'transpose', 'check_array'}
-VIEW_ATTRS = {'T', 'data', 'indices', 'indptr', 'row', 'col', 'rows', 'real', 'imag', 'flat', 'A', 'H'}
-# in-place methods
-INPLACE_METHODS = {'eliminate_zeros', 'sum_duplicates', 'setdiag', 'resize', 'sort', 'fill', 'put', 'itemset',
-                   'partition', 'update', 'pop', 'popitem', 'clear', 'append', 'extend', 'insert', 'remove', 'reverse',
-                   'prune', 'setflags', 'byteswap'}
+# ---- tables ------------------------------------------------------------------------------------------------
+# methods returning data that may share memory with the receiver
+VIEW_METHODS = {'tocsr', 'tocsc', 'tocoo', 'tolil', 'todia', 'tobsr', 'todok', 'asformat', 'asfptype', 'transpose', 'reshape',
+                'ravel', 'squeeze', 'view', 'get', 'setdefault', 'conj', 'conjugate', 'swapaxes', 'diagonal', 'values', 'items',
+                'keys', 'getrow', 'getcol', 'pop', 'popitem', '__getitem__', 'item', 'flat', 'newbyteorder',
+                'getfield', 'byteswap'}
+# functions returning data that may share memory with their first argument
+VIEW_FUNCS = {'csr_matrix', 'csc_matrix', 'coo_matrix', 'lil_matrix', 'dia_matrix', 'csr_array', 'asarray', 'asanyarray',
+              'ascontiguousarray', 'asfortranarray', 'atleast_1d', 'atleast_2d', 'atleast_3d', 'ravel', 'reshape', 'squeeze',
+              'transpose', 'check_array', 'real', 'imag', 'diagonal', 'swapaxes', 'moveaxis', 'rollaxis', 'expand_dims',
+              'broadcast_to', 'require', 'flip', 'fliplr', 'flipud', 'rot90', 'split', 'array_split', 'hsplit', 'vsplit', 'diag', 'meshgrid'}
+VIEW_ATTRS = {'T', 'data', 'indices', 'indptr', 'row', 'col', 'rows', 'real', 'imag', 'flat', 'A', 'H', 'base', 'mT'}
+SCALAR_ATTRS = {'shape', 'nnz', 'dtype', 'size', 'ndim', 'format', 'itemsize', 'nbytes'}
+# in-place methods (write the receiver); ADDERS also store (aliases of) their arguments in the receiver
+INPLACE_METHODS = {'eliminate_zeros', 'sum_duplicates', 'setdiag', 'resize', 'sort', 'fill', 'put', 'itemset', 'partition', 'update',
+                   'pop', 'popitem', 'clear', 'append', 'extend', 'insert', 'remove', 'reverse', 'prune', 'setflags', 'byteswap',
+                   'setdefault', 'add', 'discard', 'push_back', 'pop_back', 'push', 'setfield', '__setitem__',
+                   '__delitem__', '__iadd__', '__imul__', 'difference_update', 'intersection_update', 'appendleft', 'popleft'}
+ADDERS = {'append', 'extend', 'insert', 'update', 'setdefault', 'add', 'push_back', 'push', 'appendleft', '__setitem__'}
 SORT_INDICES = {'sort_indices'}
-INPLACE_FUNCS = {'fill_diagonal', 'shuffle', 'put', 'place', 'putmask', 'copyto'}
-SCALAR_CALLS = {'len', 'int', 'float', 'bool', 'str', 'min', 'max', 'abs', 'round', 'sum', 'range', 'type', 'isinstance',
-                'hasattr', 'getattr', 'id', 'hash'}
+# functions writing their first argument
+INPLACE_FUNCS = {'fill_diagonal', 'shuffle', 'put', 'place', 'putmask', 'copyto', 'put_along_axis', 'setattr', 'heapify',
+                 'heappush', 'heappop'}
+UFUNCS = {'add': 2, 'subtract': 2, 'multiply': 2, 'divide': 2, 'true_divide': 2, 'floor_divide': 2, 'power': 2, 'maximum': 2,
+          'minimum': 2, 'mod': 2, 'remainder': 2, 'logical_and': 2, 'logical_or': 2, 'logical_xor': 2, 'equal': 2, 'not_equal': 2,
+          'greater': 2, 'less': 2, 'greater_equal': 2, 'less_equal': 2, 'arctan2': 2, 'hypot': 2, 'fmax': 2, 'fmin': 2,
+          'negative': 1, 'abs': 1, 'absolute': 1, 'sqrt': 1, 'exp': 1, 'log': 1, 'log2': 1, 'log10': 1, 'sign': 1, 'sin': 1, 'cos': 1,
+          'tan': 1, 'floor': 1, 'ceil': 1, 'rint': 1, 'square': 1, 'reciprocal': 1, 'logical_not': 1, 'isnan': 1, 'isinf': 1,
+          'isfinite': 1, 'expm1': 1, 'log1p': 1, 'tanh': 1, 'conj': 1}
+OUT_POSITIONAL = {'clip': 3, 'cumsum': 3, 'cumprod': 3, 'dot': 2, 'matmul': 2, 'round': 2, 'around': 2, 'take': 3}
+# functions of numpy / scipy / the standard library known to return new data and to write nothing
+PURE_FUNCS = set(UFUNCS) | {
+    'all', 'any', 'arange', 'argmax', 'argmin', 'argpartition', 'argsort', 'argwhere', 'clip', 'cumsum', 'cumprod', 'dtype',
+    'empty', 'empty_like', 'flatnonzero', 'float32', 'float64', 'int32', 'int64', 'full', 'full_like', 'genfromtxt', 'hstack', 'vstack',
+    'stack', 'concatenate', 'column_stack', 'isclose', 'allclose', 'isin', 'issubdtype', 'lexsort', 'norm', 'qr', 'svd', 'eig', 'eigh',
+    'inv', 'pinv', 'solve', 'load', 'max', 'min', 'amax', 'amin', 'mean', 'median', 'ones', 'ones_like', 'outer', 'inner', 'dot',
+    'matmul', 'kron', 'RandomState', 'default_rng', 'choice', 'randn', 'rand', 'random', 'randint', 'uniform', 'normal', 'seed',
+    'permutation', 'repeat', 'tile', 'roll', 'save', 'savez', 'sort', 'std', 'var', 'sum', 'prod', 'nansum', 'unique', 'where',
+    'nonzero', 'zeros', 'zeros_like', 'bincount', 'histogram', 'searchsorted', 'diff', 'round', 'around', 'trace', 'linspace',
+    'logspace', 'eye', 'identity', 'diagflat', 'tril', 'triu', 'count_nonzero', 'array_equal', 'isscalar',
+    'iinfo', 'finfo', 'errstate', 'result_type', 'can_cast', 'ndim', 'shape', 'size', 'take', 'delete', 'insert', 'append',
+    'cross', 'einsum', 'average', 'percentile', 'quantile', 'ptp', 'isrealobj', 'iscomplexobj',
+    # scipy.sparse / csgraph / linalg
+    'bmat', 'diags', 'issparse', 'isspmatrix', 'isspmatrix_csr', 'connected_components',
+    'shortest_path', 'breadth_first_order', 'eigs', 'eigsh', 'svds', 'bicgstab', 'spsolve', 'cg', 'gmres', 'lsqr', 'load_npz',
+    'save_npz', 'expit', 'softmax', 'logsumexp', 'cKDTree', 'KDTree', 'find', 'LinearOperator', 'aslinearoperator',
+    # standard library
+    'warn', 'dump', 'loads', 'dumps', 'rmtree', 'open', 'parse', 'signature', 'deepcopy', 'makedirs', 'listdir', 'exists', 'isfile',
+    'isdir', 'join', 'abspath', 'expanduser', 'commonpath', 'remove', 'urlretrieve', 'reader', 'Pool', 'cpu_count', 'Path', 'signal',
+    'alarm', 'getcwd', 'basename', 'dirname', 'splitext', 'pow', 'srand', 'time', 'perf_counter', 'product', 'combinations',
+    'chain', 'defaultdict', 'Counter', 'OrderedDict', 'namedtuple', 'floor', 'ceil', 'log', 'exp', 'fabs', 'isnan', 'isinf',
+}
+# builtins: scalar results / new objects
+PURE_BUILTINS = {'len', 'int', 'float', 'bool', 'str', 'min', 'max', 'abs', 'round', 'sum', 'range', 'type', 'isinstance', 'issubclass',
+                 'hasattr', 'id', 'hash', 'callable', 'ord', 'chr', 'print', 'repr', 'any', 'all', 'format', 'divmod', 'pow', 'bytes',
+                 'super', 'object', 'slice', 'complex', 'input', 'locals', 'globals', 'staticmethod', 'classmethod',
+                 'property', 'NotImplementedError', 'ValueError', 'TypeError', 'KeyError', 'IndexError', 'RuntimeError', 'Exception',
+                 'Warning', 'AttributeError', 'FileNotFoundError', 'TimeoutError', 'ZeroDivisionError', 'StopIteration',
+                 'DeprecationWarning', 'UserWarning', 'RuntimeWarning', 'OSError', 'IOError', 'AssertionError', 'ImportError'}
+# builtins returning containers whose elements are (or may be) the elements of their arguments
+SHARING_BUILTINS = {'list', 'tuple', 'dict', 'set', 'frozenset', 'sorted', 'reversed', 'zip', 'enumerate', 'map', 'filter', 'iter',
+                    'next', 'copy', 'getattr', 'partial', 'vars', 'memoryview', 'cycle', 'islice'}
+# methods of arrays / sparse matrices / strings / files returning new data and writing nothing
+PURE_METHODS = {'dot', 'sum', 'mean', 'max', 'min', 'copy', 'astype', 'toarray', 'todense', 'multiply', 'power', 'nonzero', 'argsort',
+                'argmax', 'argmin', 'flatten', 'tolist', 'any', 'all', 'cumsum', 'cumprod', 'std', 'var', 'clip', 'round', 'trace',
+                'count_nonzero', 'format', 'join', 'split', 'strip', 'rstrip', 'lstrip', 'lower', 'upper', 'replace', 'startswith',
+                'endswith', 'index', 'count', 'read', 'readline', 'readlines', 'write', 'close', 'encode', 'decode', 'tobytes',
+                'maximum', 'minimum', 'prod', 'ptp', 'searchsorted', 'repeat', 'take', 'compress', 'choose', 'matvec', 'rmatvec',
+                'matmat', 'rmatmat', 'query', 'query_ball_point', 'union', 'intersection', 'difference', 'issubset', 'isdisjoint',
+                'exists', 'expanduser', 'is_absolute', 'resolve', 'mkdir', 'getroot', 'getmembers', 'extractall', 'islnk', 'issym',
+                'find', 'findall', 'iter', 'isdigit', 'isnumeric', 'title', 'zfill', 'size', 'front', 'back', 'empty', 'top',
+                'uniform', 'normal', 'randint', 'random', 'choice', 'permutation', 'randn', 'rand', 'random_sample', 'standard_normal',
+                'integers', 'map', 'imap', 'starmap', 'apply_async', 'terminate', 'is_integer', 'bit_length', 'most_common',
+                'elements', 'total_seconds', 'group', 'groups', 'match', 'search', 'sub', 'seek', 'tell', 'flush', 'splitlines',
+                'casefold', 'capitalize', 'isalpha', 'isspace', 'signal', 'alarm', 'sort_values', 'tostring',
+                'dumps', '__add__', '__mul__', '__neg__', '__sub__', '__len__', '__contains__', '__eq__',
+                'getnnz', 'get_shape', 'getformat', 'sign', 'sqrt', 'expm1', 'log1p', 'floor', 'ceil', 'rint',
+                'tanh', 'sin', 'tan', 'arcsin', 'arctan', 'sinh', 'deg2rad', 'rad2deg', 'trunc', 'nanmax', 'nanmin', 'solve',
+                'expit', 'warn', 'is_file', 'is_dir', 'glob', 'with_suffix', 'read_text', 'write_text', 'open'}
+NUMERIC_MAKERS = {'zeros', 'ones', 'full', 'empty', 'arange', 'zeros_like', 'ones_like', 'full_like', 'empty_like', 'array', 'hstack',
+                  'vstack', 'concatenate', 'astype', 'argsort', 'cumsum', 'bincount', 'unique', 'eye', 'identity', 'linspace', 'repeat',
+                  'tile', 'flatnonzero', 'random', 'rand', 'randn', 'uniform', 'normal', 'dot', 'sum', 'mean', 'toarray', 'sqrt', 'exp', 'log',
+                  'abs', 'sign', 'cos', 'sin', 'outer', 'clip', 'maximum', 'minimum', 'power'}
+SCALAR_CALLS = {'len', 'int', 'float', 'bool', 'str', 'min', 'max', 'abs', 'round', 'sum', 'range', 'type', 'isinstance', 'hasattr',
+                'id', 'hash', 'ord', 'callable', 'issubclass'}
 SCALAR_ANN = ('int', 'float', 'bool', 'str')
 SPARSE_MAKERS = {'csr_matrix', 'csc_matrix', 'coo_matrix', 'lil_matrix', 'diags', 'eye', 'identity', 'bmat', 'check_format',
                  'tocsr', 'tocsc', 'tocoo', 'tolil', 'get_adjacency', 'bipartite2undirected', 'bipartite2directed',
                  'directed2undirected', 'get_membership', 'normalize', 'get_laplacian', 'random'}
+# expressions known to evaluate to an index *array* (so that x[expr] is advanced indexing: a copy)
+INDEX_ARRAY_MAKERS = {'argsort', 'where', 'flatnonzero', 'nonzero', 'arange', 'array', 'unique', 'argpartition', 'permutation', 'astype',
+                      'argwhere', 'isin', 'ravel', 'choice', 'zeros', 'ones', 'logical_and', 'logical_or', 'logical_not', 'isnan',
+                      'hstack', 'concatenate', 'sort', 'lexsort', 'asarray', 'tolist', 'list', 'sorted', 'setdiff1d', 'intersect1d',
+                      'union1d', 'repeat', 'full', 'get_index'}
 
 
-def _root(node):
-    """root variable name of an attribute / subscript chain; 'self.attr' for estimator state"""
-    chain = []
-    while isinstance(node, (ast.Attribute, ast.Subscript, ast.Starred)):
-        if isinstance(node, ast.Attribute):
-            chain.append(node.attr)
-        node = node.value
-    if isinstance(node, ast.Name):
-        if node.id == 'self' and chain:
-            return 'self.' + chain[-1]
-        return node.id
-    if isinstance(node, ast.Call):
-        return node       # e.g. f(x)[0] : handled by the caller
-    return None
+# ---- Cython -> Python ----------------------------------------------------------------------------------------
+C_TYPE = r'(?:unsigned\s+)?(?:int|long|float|double|bint|short|char|void|size_t|Py_ssize_t|bool|object|list|dict|tuple|str|ctuple|' \
+         r'int_or_long|vector\[[^=]*?\]|queue\[[^=]*?\]|set\[[^=]*?\]|pair\[[^=]*?\]|c?np\.[\w.]+(?:\[[^\]]*\])?|\([\w, ]+\)|[A-Z]\w*)' \
+         r'(?:\s*\[[:, ]*\])?(?:\s*[*&])*'
 
 
+def _split_top(s):
+    out, depth, cur = [], 0, ''
+    for ch in s:
+        if ch in '([{':
+            depth += 1
+        elif ch in ')]}':
+            depth -= 1
+        if ch == ',' and depth == 0:
+            out.append(cur)
+            cur = ''
+        else:
+            cur += ch
+    if cur.strip():
+        out.append(cur)
+    return out
+
+
+def _strip_param(p):
+    p = p.strip()
+    if not p or p in ('self', '*', '/') or p.startswith('*'):
+        return p
+    default = ''
+    m = re.match(r'^(.*?)(=(?!=).*)$', p)
+    head = p
+    if m and m.group(1).count('[') == m.group(1).count(']'):
+        head, default = m.group(1).strip(), m.group(2)
+    if ':' in head and not re.search(r'\[[^\]]*:[^\]]*\]\s*\w+$', head):
+        return p                          # python annotation `x: T = d`
+    name = re.findall(r'[A-Za-z_]\w*', head)[-1]
+    return name + default
+
+
+def pyx_to_py(src):
+    """Cython source -> Python source with the same def / class structure and the same statements (C declarations,
+    types and casts dropped; `cdef T x = e` becomes `x = e`; cdef / cpdef functions become defs)"""
+    out = []
+    lines = src.split('\n')
+    i = 0
+    skip_indent = None
+    while i < len(lines):
+        ln = lines[i]
+        i += 1
+        stripped = ln.strip()
+        indent = len(ln) - len(ln.lstrip())
+        if skip_indent is not None:
+            if stripped == '' or indent > skip_indent:
+                continue
+            skip_indent = None
+        if re.match(r'ctypedef\s+.*:\s*$', stripped) or re.match(r'cdef\s+extern\b', stripped) or stripped == 'cdef:':
+            skip_indent = indent
+            continue
+        if stripped.startswith(('cimport ', 'ctypedef ')) or re.match(r'from\s+\S+\s+cimport\s', stripped):
+            m = re.match(r'from\s+(\S+)\s+cimport\s+(.*)', stripped)
+            if m and not m.group(1).startswith('sknetwork'):
+                out.append(' ' * indent + 'from c_%s import %s' % (m.group(1).replace('.', '_'), m.group(2)))
+            elif m:
+                out.append(' ' * indent + 'from %s import %s' % (m.group(1), m.group(2)))
+            continue
+        if stripped.startswith('@cython'):
+            continue
+        if re.match(r'(cdef|cpdef|def)\s', stripped) and '(' in stripped and stripped.count('(') > stripped.count(')'):
+            while stripped.count('(') > stripped.count(')') and i < len(lines):
+                stripped += ' ' + lines[i].strip()
+                i += 1
+        m = re.match(r'cdef\s+class\s+(\w+)\s*(\([^)]*\))?\s*:', stripped)
+        if m:
+            out.append(' ' * indent + 'class %s%s:' % (m.group(1), m.group(2) or ''))
+            continue
+        m = re.match(r'(?:cdef|cpdef|def)\s+(?:inline\s+)?(.*?)(\w+)\s*\((.*)\)\s*(?:nogil\s*)?(?:except\s*[^:]*)?(?:->\s*[^:]+)?:\s*(#.*)?$',
+                     stripped)
+        if m and not re.match(r'c?p?def\s+' + C_TYPE + r'\s+\w+\s*=', stripped):
+            params = ', '.join(_strip_param(p) for p in _split_top(m.group(3)))
+            out.append(' ' * indent + 'def %s(%s):' % (m.group(2), params))
+            continue
+        if stripped.startswith(('cdef ', 'cpdef ')):
+            body = re.sub(r'^c?p?def\s+(?:public\s+|readonly\s+)?', '', stripped)
+            m = re.match(r'^' + C_TYPE + r'\s+(.*)$', body)
+            rest = m.group(1) if m else body
+            assigns = [p.strip() for p in _split_top(rest) if re.match(r'^\s*\w+\s*=(?!=)', p)]
+            for a in assigns:
+                out.append(' ' * indent + a)
+            if not assigns:
+                out.append(' ' * indent + 'pass')
+            continue
+        ln2 = re.sub(r'\bwith\s+(?:nogil|gil)\s*:', 'if True:', ln)
+        ln2 = re.sub(r'<\s*' + C_TYPE + r'\s*>', '', ln2)
+        ln2 = re.sub(r'\bfor\s+(\w+)\s+in\s+prange\(', r'for \1 in range(', ln2)
+        ln2 = re.sub(r'\)\s*nogil\s*:', '):', ln2)
+        out.append(ln2)
+    return '\n'.join(out)
+
+
+# ---- functions, tables ---------------------------------------------------------------------------------------
 class FnInfo:
-    def __init__(self, qual, module, cls, node, public):
+    def __init__(self, qual, module, cls, node, public, static=False):
         self.qual, self.module, self.cls, self.node, self.public = qual, module, cls, node, public
         a = node.args
         params = [p.arg for p in a.posonlyargs + a.args + a.kwonlyargs]
@@ -60,30 +232,222 @@ class FnInfo:
             params.append(a.vararg.arg)
         if a.kwarg:
             params.append(a.kwarg.arg)
-        self.is_method = cls is not None and params and params[0] in ('self', 'cls')
+        self.is_method = cls is not None and not static and bool(params) and params[0] in ('self', 'cls')
+        self.static = cls is not None and not self.is_method
         self.params = params[1:] if self.is_method else params
-        self.ann = {}
         self.scalar_params = set()
         self.sparse_params = set()
+        self.array_params = set()
         allp = a.posonlyargs + a.args + a.kwonlyargs
         defaults = [None] * (len(a.posonlyargs + a.args) - len(a.defaults)) + list(a.defaults) + list(a.kw_defaults)
         for p, d in zip(allp, defaults):
             ann = ast.unparse(p.annotation) if p.annotation is not None else ''
             if ('csr_matrix' in ann or 'sparse' in ann) and 'ndarray' not in ann:
                 self.sparse_params.add(p.arg)
-            if ann and all(t.strip() in SCALAR_ANN or t.strip() == 'None' for t in re.split(r'[\[\],|]| or ', ann.replace('Optional', '').replace('Union', '')) if t.strip()):
+            if 'ndarray' in ann and 'int' not in ann.replace('Union', ''):
+                self.array_params.add(p.arg)
+            if ann and all(t.strip() in SCALAR_ANN or t.strip() == 'None' for t in
+                           re.split(r'[\[\],|]| or ', ann.replace('Optional', '').replace('Union', '')) if t.strip()):
                 self.scalar_params.add(p.arg)
             elif not ann and isinstance(d, ast.Constant) and d.value is not None and not isinstance(d.value, (bytes,)):
                 self.scalar_params.add(p.arg)
-            elif isinstance(d, ast.Constant) and isinstance(d.value, (bool, int, float, str)) and 'ndarray' not in ann and 'matrix' not in ann and 'dict' not in ann.lower() and 'Iterable' not in ann:
+            elif isinstance(d, ast.Constant) and isinstance(d.value, (bool, int, float, str)) and 'ndarray' not in ann \
+                    and 'matrix' not in ann and 'dict' not in ann.lower() and 'Iterable' not in ann:
                 self.scalar_params.add(p.arg)
-        self.writes = set()      # param indices
-        self.ret_alias = set()
-        self.stmts = []
-        self.vars = {}
-        self.ret_vars = set()
+        self.writes = set()          # parameter indices this function may write
+        self.ret_alias = set()       # parameter indices its result may share memory with
+        self.attr_writes = set()     # attributes of self it writes in place (through a value read from self)
+        self.stored_params = set()   # parameters (an alias of) which it stores in an attribute of self
+        self.stmts, self.vars, self.ret_vars = [], {}, set()
+        self.unknown_calls = []
+        self.exempt = False
+        self.kernel = False
 
 
+class Table:
+    def __init__(self):
+        self.by_name = {}
+        self.classes = set()
+        self.bases = {}            # class -> base class names
+        self.subclasses = {}       # class -> direct subclasses
+        self.class_methods = {}    # class -> {method name: FnInfo}
+        self.attr_types = {}       # class -> {attribute: class name} (from `self.x = ClassName(...)`)
+        self.externals = {}        # module -> names bound by imports from outside the repository
+        self.fns = []
+        self.unresolved = 0
+        self.unparsed = []
+        self.hot_attrs = {}        # class -> attributes written in place by some method of its family
+        self.exported_classes = set()
+
+    def add(self, fn):
+        self.fns.append(fn)
+        if fn.cls is not None:
+            self.class_methods.setdefault(fn.cls, {})[fn.node.name] = fn
+        else:
+            self.by_name.setdefault(fn.node.name, []).append(fn)
+
+    def mro(self, cls):
+        out, todo = [], [cls]
+        while todo:
+            c = todo.pop(0)
+            if c in out or c not in self.classes:
+                continue
+            out.append(c)
+            todo += self.bases.get(c, [])
+        return out
+
+    def descendants(self, cls):
+        out, todo = [], list(self.subclasses.get(cls, []))
+        while todo:
+            c = todo.pop(0)
+            if c not in out:
+                out.append(c)
+                todo += self.subclasses.get(c, [])
+        return out
+
+    def family(self, cls):
+        """classes whose methods may run on an object that a method of `cls` sees as self"""
+        fam = []
+        for c in [cls] + self.descendants(cls):
+            for d in self.mro(c):
+                if d not in fam:
+                    fam.append(d)
+        return fam
+
+    def method_of(self, cls, name, virtual=True):
+        """the method found through the MRO, plus (virtual dispatch) the overrides in subclasses"""
+        out = []
+        for c in self.mro(cls):
+            m = self.class_methods.get(c, {}).get(name)
+            if m is not None:
+                out.append(m)
+                break
+        if virtual:
+            for c in self.descendants(cls):
+                m = self.class_methods.get(c, {}).get(name)
+                if m is not None and m not in out:
+                    out.append(m)
+        return out or None
+
+    def methods_named(self, name):
+        return [ms[name] for ms in self.class_methods.values() if name in ms]
+
+    def attr_type(self, cls, attr):
+        for c in self.mro(cls):
+            t = self.attr_types.get(c, {}).get(attr)
+            if t:
+                return t
+        return None
+
+    def resolve(self, name):
+        return self.by_name.get(name)
+
+
+PUBLIC_METHODS = ('fit', 'fit_predict', 'fit_transform', 'fit_predict_proba', 'predict', 'predict_proba', 'transform')
+INTERNAL_PREFIXES = ('sknetwork/gnn/optimizer', 'sknetwork/gnn/base_layer', 'sknetwork/gnn/base_activation', 'sknetwork/log',
+                     'sknetwork/data/')
+
+
+def exported_names(pkg):
+    """names imported by the package-level __init__.py files: the public API"""
+    out = set()
+    for d, dirs, files in os.walk(pkg):
+        dirs[:] = [x for x in dirs if x not in ('tests', '__pycache__')]
+        if '__init__.py' in files:
+            try:
+                tree = ast.parse(open(os.path.join(d, '__init__.py')).read())
+            except SyntaxError:
+                continue
+            for n in ast.walk(tree):
+                if isinstance(n, ast.ImportFrom):
+                    for a in n.names:
+                        out.add(a.asname or a.name)
+    return out
+
+
+def _is_static(m):
+    return any(isinstance(d, ast.Name) and d.id == 'staticmethod' for d in m.decorator_list)
+
+
+def add_module(table, tree, mod, rel, exported, internal):
+    ext = table.externals.setdefault(mod, set())
+    for n in ast.walk(tree):
+        if isinstance(n, ast.Import):
+            for a in n.names:
+                if not a.name.startswith('sknetwork'):
+                    ext.add((a.asname or a.name).split('.')[0])
+        elif isinstance(n, ast.ImportFrom):
+            if n.level == 0 and n.module and not n.module.startswith('sknetwork'):
+                for a in n.names:
+                    ext.add(a.asname or a.name)
+    for n in tree.body:
+        if isinstance(n, ast.FunctionDef):
+            public = n.name in exported and not n.name.startswith('_') and not internal
+            table.add(FnInfo(mod + '.' + n.name, mod, None, n, public))
+        elif isinstance(n, ast.ClassDef):
+            table.classes.add(n.name)
+            if n.name in exported and not n.name.startswith(('_', 'Base')) and not internal:
+                table.exported_classes.add(n.name)
+            table.bases[n.name] = [ast.unparse(b).split('.')[-1] for b in n.bases]
+            for m in n.body:
+                if isinstance(m, ast.FunctionDef):
+                    fn = FnInfo(mod + '.' + n.name + '.' + m.name, mod, n.name, m, False, static=_is_static(m))
+                    table.add(fn)
+                    if m.name in ('__init__', '__cinit__'):
+                        for st in ast.walk(m):
+                            if isinstance(st, ast.Assign) and isinstance(st.value, ast.Call) and isinstance(st.value.func, ast.Name):
+                                for t in st.targets:
+                                    if isinstance(t, ast.Attribute) and isinstance(t.value, ast.Name) and t.value.id == 'self':
+                                        table.attr_types.setdefault(n.name, {})[t.attr] = st.value.func.id
+
+
+def collect(root, extra_sources=None):
+    """`extra_sources`: {relative path: source text} analysed instead of the tree (self-tests)"""
+    table = Table()
+    sources = []
+    if extra_sources is None:
+        pkg = os.path.join(root, 'sknetwork')
+        exported = exported_names(pkg)
+        for d, dirs, files in os.walk(pkg):
+            dirs[:] = sorted(x for x in dirs if x not in ('tests', '__pycache__'))
+            for f in sorted(files):
+                if f.startswith('test_') or not f.endswith(('.py', '.pyx')):
+                    continue
+                path = os.path.join(d, f)
+                sources.append((os.path.relpath(path, root), open(path).read()))
+    else:
+        exported = None
+        sources = sorted(extra_sources.items())
+    for rel, text in sources:
+        pyx = rel.endswith('.pyx')
+        try:
+            tree = ast.parse(pyx_to_py(text) if pyx else text)
+        except SyntaxError as e:
+            table.unparsed.append('%s: %s' % (rel, e))
+            continue
+        mod = rel[:-4 if pyx else -3].replace('/', '.')
+        ex = exported
+        if ex is None:     # self-test sources: every top-level name / class is exported
+            ex = {n.name for n in tree.body if isinstance(n, (ast.FunctionDef, ast.ClassDef))}
+        add_module(table, tree, mod, rel, ex, rel.startswith(INTERNAL_PREFIXES))
+    for c, bs in table.bases.items():
+        for b in bs:
+            table.subclasses.setdefault(b, []).append(c)
+    for c, d in table.attr_types.items():
+        for k in [k for k, v in d.items() if v not in table.classes]:
+            del d[k]
+    # public methods: every PUBLIC_METHODS method an exported class reaches through its MRO, wherever it is defined
+    for c in sorted(table.classes):
+        if c not in table.exported_classes:
+            continue
+        for name in PUBLIC_METHODS:
+            m = table.method_of(c, name, virtual=False)
+            if m:
+                m[0].public = True
+    return table
+
+
+# ---- lowering ------------------------------------------------------------------------------------------------
 class Lower(ast.NodeVisitor):
     """lowers one function body to ownership statements, using the current summaries of callees.
     Variables are versioned (a new index per assignment, merged at control-flow joins), so re-binding a
@@ -96,14 +460,24 @@ class Lower(ast.NodeVisitor):
         self.nvars = 0
         self.cur = {}               # name -> set of live version indices
         self.scalars = set(fn.scalar_params)
+        self.arrays = set(fn.array_params)      # names known to hold index arrays
         self.ret_vars = set()
         self.vars = {}              # index -> name (for reports)
         self.line = 0
         self.dead = False
-        self.loop_items = set()     # names bound by `for x in <array>` (elements: scalars or row views)
+        self.loop_items = set()
         self.types = {}             # name -> repository class of the object it holds
         self.sparse = set()         # version indices known to hold scipy sparse matrices
-        self.mut_lines = {}         # statement position -> source line
+        self.nested = {}            # name -> {'params': [(name, var)], 'ret': set(var), 'vararg': var or None}
+        self.attr_entry = {}        # attribute -> variable standing for the value of self.attribute on entry
+        self.attr_binds = []        # (attribute, variable) for every `self.attribute = ...`
+        self.attr_writes = set()    # attributes written in place by callees run on self
+        self.unknown = []           # (line, text) of calls treated as unknown
+        self.lines = {}             # statement position -> (source line, reason) of the in-place statements
+        self.own = set()            # versions bound to an object created here (`[]`, `{}`, np.zeros(...), x.copy() ...)
+        self.numeric = set()        # versions known to hold numeric arrays (an item store copies the value into them)
+        self.externals = table.externals.get(fn.module, set())
+        self.hot = table.hot_attrs.get(fn.cls, set()) if fn.cls else set()
         for i, p in enumerate(fn.params):
             x = self.new(p)
             self.cur[p] = {x}
@@ -122,9 +496,23 @@ class Lower(ast.NodeVisitor):
         self.vars[x] = name
         return x
 
+    def mutate(self, roots, why=''):
+        for r in sorted(set(roots)):
+            self.lines[len(self.stmts)] = (self.line, why)
+            self.stmts.append(('mutate', r))
+
     # ---- expressions --------------------------------------------------------------------------
+    def self_attr(self, attr):
+        key = 'self.' + attr
+        if key not in self.cur:
+            x = self.new(key + '@entry')
+            self.stmts.append(('bind', x, ('fresh',)))
+            self.attr_entry[attr] = x
+            self.cur[key] = {x}
+        return sorted(self.cur[key])
+
     def roots_of(self, node):
-        """variable indices the value of `node` may share memory with (empty = fresh)"""
+        """variable indices the value of `node` may share memory with (empty = fresh); lowers nested calls"""
         if node is None:
             return []
         if isinstance(node, ast.Name):
@@ -132,14 +520,16 @@ class Lower(ast.NodeVisitor):
                 return []
             return sorted(self.cur.get(node.id, ()))
         if isinstance(node, ast.Attribute):
-            if isinstance(node.value, ast.Name) and node.value.id == 'self':
-                return sorted(self.cur.get('self.' + node.attr, ()))
-            if node.attr in ('shape', 'nnz', 'dtype', 'size', 'ndim', 'format'):
+            if node.attr in SCALAR_ATTRS:
+                self.roots_of(node.value)
                 return []
+            if isinstance(node.value, ast.Name) and node.value.id == 'self' and self.fn.cls:
+                return self.self_attr(node.attr)
             return self.roots_of(node.value)
         if isinstance(node, ast.Subscript):
             self.roots_of(node.slice)
             if self.is_fancy(node.slice):
+                self.roots_of(node.value)
                 return []      # advanced indexing copies
             return self.roots_of(node.value)
         if isinstance(node, ast.Starred):
@@ -158,16 +548,22 @@ class Lower(ast.NodeVisitor):
                 out += self.roots_of(v)
             return out
         if isinstance(node, ast.Dict):
-            for v in list(node.keys) + list(node.values):
+            out = []
+            for v in node.keys:          # keys are hashable, hence immutable: they cannot be written through
                 self.roots_of(v)
-            return []
+            for v in node.values:
+                out += self.roots_of(v)
+            return out
         if isinstance(node, ast.NamedExpr):
             r = self.roots_of(node.value)
             self.bind_target(node.target, r, node.value)
             return r
         if isinstance(node, ast.Call):
-            return self.call_roots(node)
-        if isinstance(node, (ast.BinOp,)):
+            return self.lower_call(node)
+        if isinstance(node, ast.Lambda):
+            self.lower_lambda(node)
+            return []
+        if isinstance(node, ast.BinOp):
             self.roots_of(node.left)
             self.roots_of(node.right)
             return []
@@ -187,51 +583,270 @@ class Lower(ast.NodeVisitor):
                     self.roots_of(c)
             if isinstance(node, ast.DictComp):
                 self.roots_of(node.key)
-                self.roots_of(node.value)
-            else:
-                self.roots_of(node.elt)
+                return self.roots_of(node.value)
+            return self.roots_of(node.elt)
+        if isinstance(node, (ast.Await, ast.Yield, ast.YieldFrom)):
+            return self.roots_of(node.value)
+        if isinstance(node, ast.JoinedStr):
+            for v in node.values:
+                self.roots_of(v)
             return []
-        return []   # Constant, lambda, f-strings ... : fresh
+        if isinstance(node, ast.FormattedValue):
+            self.roots_of(node.value)
+            return []
+        if isinstance(node, ast.Slice):
+            for v in (node.lower, node.upper, node.step):
+                self.roots_of(v)
+            return []
+        return []   # Constant
 
-    def call_roots(self, node):
+    # ---- nested functions and lambdas -------------------------------------------------------------
+    def lower_nested(self, args, body, is_expr):
+        rec = {'params': [], 'ret': set(), 'vararg': None}
+        saved = (self.cur, self.ret_vars, self.dead, set(self.scalars), set(self.loop_items), set(self.arrays))
+        self.cur = {k: set(v) for k, v in self.cur.items()}
+        self.ret_vars = set()
+        for p in args.posonlyargs + args.args + args.kwonlyargs:
+            x = self.new(p.arg)
+            self.stmts.append(('bind', x, ('fresh',)))
+            self.cur[p.arg] = {x}
+            self.scalars.discard(p.arg)
+            rec['params'].append((p.arg, x))
+        for va in (args.vararg, args.kwarg):
+            if va is not None:
+                x = self.new(va.arg)
+                self.stmts.append(('bind', x, ('fresh',)))
+                self.cur[va.arg] = {x}
+                rec['vararg'] = x
+        if is_expr:
+            rec['ret'] = set(self.roots_of(body))
+        else:
+            self.dead = False
+            for st in body:
+                self.visit(st)
+                if self.dead:
+                    break
+            rec['ret'] = set(self.ret_vars)
+        self.cur, self.ret_vars, self.dead, self.scalars, self.loop_items, self.arrays = saved
+        return rec
+
+    def lower_lambda(self, node):
+        return self.lower_nested(node.args, node.body, True)
+
+    def bind_nested_params(self, rec, roots_by_pos, roots_by_kw, all_roots=None):
+        """an (alias) binding of the parameters of a nested function / lambda to the roots of the arguments"""
+        for i, (pname, x) in enumerate(rec['params']):
+            roots = list(all_roots) if all_roots is not None else []
+            if all_roots is None:
+                if i < len(roots_by_pos):
+                    roots += roots_by_pos[i]
+                roots += roots_by_kw.get(pname, [])
+            if roots:
+                self.stmts.append(('bind', x, ('alias', sorted(set(roots)))))
+        if rec['vararg'] is not None:
+            extra = list(all_roots) if all_roots is not None else [r for rs in roots_by_pos[len(rec['params']):] for r in rs]
+            if extra:
+                self.stmts.append(('bind', rec['vararg'], ('alias', sorted(set(extra)))))
+
+    # ---- calls ----------------------------------------------------------------------------------------
+    def is_external_base(self, node):
+        """`np`, `np.random`, `sparse.csgraph` ... : an attribute chain rooted at a name imported from outside"""
+        while isinstance(node, ast.Attribute):
+            node = node.value
+        return isinstance(node, ast.Name) and node.id in self.externals and node.id not in self.cur
+
+    def lower_call(self, node):
         f = node.func
-        args = list(node.args) + [k.value for k in node.keywords]
-        arg_roots = [self.roots_of(a) for a in args]      # also lowers nested calls (their effects)
-        self.call_effects(node)
-        if isinstance(f, ast.Attribute):
-            name = f.attr
-            recv = self.roots_of(f.value)
-            if name in VIEW_METHODS:
-                return recv
-            callee = self.resolve_method(f)
-            if callee:
-                return self.summary_roots(callee, node)
-            if name in VIEW_FUNCS and args:
-                if name in ('csr_matrix', 'csc_matrix', 'coo_matrix') and _kw_true(node, 'copy'):
-                    return []
-                return arg_roots[0]
-            if name == 'array' and _kw_false(node, 'copy') and args:
-                return arg_roots[0]
-            if name in ('astype', 'tocoo', 'tocsc') and _kw_false(node, 'copy'):
-                return recv
-            if name == 'tocoo':
-                return recv            # csr.tocoo() shares the data buffer (self-test)
-            return []
+        pos_roots = [self.roots_of(a) for a in node.args]
+        kw_roots = {}
+        for k in node.keywords:
+            kw_roots.setdefault(k.arg, []).extend(self.roots_of(k.value))
+        arg_roots = [r for rs in pos_roots for r in rs] + [r for rs in kw_roots.values() for r in rs]
+        result = []
+        # function-valued arguments: their parameters may receive any other argument of this call
+        for a in list(node.args) + [k.value for k in node.keywords]:
+            rec = None
+            if isinstance(a, ast.Lambda):
+                rec = self.lower_lambda(a)
+            elif isinstance(a, ast.Name) and a.id in self.nested:
+                rec = self.nested[a.id]
+            if rec is not None:
+                self.bind_nested_params(rec, [], {}, all_roots=arg_roots)
+                result += sorted(rec['ret'])
+        # out= : written, and returned
+        if 'out' in kw_roots:
+            self.mutate(kw_roots['out'])
+            result += kw_roots['out']
         if isinstance(f, ast.Name):
-            name = f.id
-            callee = self.table.resolve(name, method=False)
-            if callee:
-                return self.summary_roots(callee, node)
-            if name in self.table.classes:
-                out = []
-                for r in arg_roots:
-                    out += r
-                return out
-            if name in VIEW_FUNCS and args:
-                return arg_roots[0]
+            return result + self.call_name(node, f.id, pos_roots, kw_roots, arg_roots)
+        if isinstance(f, ast.Attribute):
+            return result + self.call_attr(node, f, pos_roots, kw_roots, arg_roots)
+        # calling the result of an expression (f(x)(y), fs[i](y)): unknown
+        recv = self.roots_of(f)
+        return result + self.unknown_call(node, recv + arg_roots)
+
+    def unknown_call(self, node, roots):
+        self.unknown.append((self.line, ast.unparse(node.func)[:60]))
+        self.mutate(roots, 'unknown call ' + ast.unparse(node.func)[:40])
+        return list(roots)
+
+    def apply_summaries(self, callees, node, pos_roots, kw_roots, shift=0):
+        """effects and result roots of a call to functions of the repository; `shift`: positional arguments that
+        precede the callee's parameter 0 (an explicit self in `Class.method(self, ...)`)"""
+        out = []
+        for c in callees:
+            amap = {}
+            starred = False
+            ca = c.node.args
+            npos = len(ca.posonlyargs) + len(ca.args) - (1 if c.is_method else 0)
+            for i, (a, rs) in enumerate(zip(node.args, pos_roots)):
+                if isinstance(a, ast.Starred):
+                    starred = True
+                    break
+                j = i - shift
+                if j < 0:
+                    continue
+                if j < npos:
+                    amap.setdefault(j, []).extend(rs)
+                elif ca.vararg is not None:     # surplus positional arguments land in *args
+                    amap.setdefault(c.params.index(ca.vararg.arg), []).extend(rs)
+            for k, rs in kw_roots.items():
+                if k is None:
+                    starred = True
+                elif k in c.params:
+                    amap.setdefault(c.params.index(k), []).extend(rs)
+                elif ca.kwarg is not None:
+                    amap.setdefault(c.params.index(ca.kwarg.arg), []).extend(rs)
+            if starred:     # *args / **kwargs at the call site: any parameter may receive any of the arguments
+                allr = [r for rs in pos_roots for r in rs] + [r for rs in kw_roots.values() for r in rs]
+                for j in range(len(c.params)):
+                    amap.setdefault(j, []).extend(allr)
+            for p in c.writes:
+                self.mutate(amap.get(p, []), 'callee %s writes %s' % (c.qual, c.params[p]))
+            for p in c.ret_alias:
+                out += amap.get(p, [])
+        return out
+
+    def call_name(self, node, name, pos_roots, kw_roots, arg_roots):
+        if name in self.nested and name not in self.table.by_name:
+            rec = self.nested[name]
+            self.bind_nested_params(rec, pos_roots, kw_roots)
+            return sorted(rec['ret'])
+        if name in self.cur and name not in self.scalars:
+            # a local variable that is called: an object of a known repository class, or unknown
+            cls = self.types.get(name)
+            callees = self.table.method_of(cls, '__call__') if cls else self.table.methods_named('__call__')
+            if callees:
+                return self.apply_summaries(callees, node, pos_roots, kw_roots)
+            return self.unknown_call(node, sorted(self.cur[name]) + arg_roots)
+        callees = self.table.resolve(name)
+        if callees:
+            return self.apply_summaries(callees, node, pos_roots, kw_roots)
+        if name in self.table.classes:
+            init = self.table.method_of(name, '__init__', virtual=False) or self.table.method_of(name, '__cinit__', virtual=False)
+            if init:
+                self.apply_summaries(init, node, pos_roots, kw_roots)
+                kept = _Kept(init[0])
+                return self.apply_summaries([kept], node, pos_roots, kw_roots)      # the object keeps what __init__ stores in self
+            return list(arg_roots)      # no constructor in the repository: the object may keep any argument
+        return self.external_function(node, name, pos_roots, kw_roots, arg_roots)
+
+    def external_function(self, node, name, pos_roots, kw_roots, arg_roots):
+        """a builtin or a function imported from outside the repository, by its name"""
+        first = pos_roots[0] if pos_roots else []
+        result = []
+        k = UFUNCS.get(name, OUT_POSITIONAL.get(name))
+        if k is not None and len(pos_roots) > k:
+            self.mutate(pos_roots[k])
+            result += pos_roots[k]
+        if name in INPLACE_FUNCS:
+            self.mutate(first)
+            return result
+        if name == 'array':
+            if any(kw.arg == 'copy' and not (isinstance(kw.value, ast.Constant) and kw.value.value is True) for kw in node.keywords):
+                return result + first
+            return result
+        if name in VIEW_FUNCS:
+            if name.endswith(('_matrix', '_array')) and _kw_true(node, 'copy'):
+                return result
+            return result + first
+        if name in PURE_FUNCS or name in PURE_BUILTINS:
+            return result
+        if name in SHARING_BUILTINS:
+            return result + arg_roots
+        return result + self.unknown_call(node, arg_roots)
+
+    def call_attr(self, node, f, pos_roots, kw_roots, arg_roots):
+        name = f.attr
+        # module.function(...)
+        if self.is_external_base(f.value):
+            if name == 'at' and isinstance(f.value, ast.Attribute) and f.value.attr in UFUNCS:
+                self.mutate(pos_roots[0] if pos_roots else [])
+                return []
+            return self.external_function(node, name, pos_roots, kw_roots, arg_roots)
+        # Class.method(self, ...) / super().method(...)
+        if isinstance(f.value, ast.Name) and f.value.id in self.table.classes and f.value.id not in self.cur:
+            callees = self.table.method_of(f.value.id, name, virtual=False)
+            if callees:
+                shift = 1 if callees[0].is_method else 0
+                return self.apply_summaries(callees, node, pos_roots, kw_roots, shift=shift)
+        if isinstance(f.value, ast.Name) and f.value.id not in self.cur and f.value.id != 'self' and name in self.table.by_name \
+                and f.value.id not in self.scalars:
+            return self.apply_summaries(self.table.by_name[name], node, pos_roots, kw_roots)        # repo_module.function(...)
+        is_super = isinstance(f.value, ast.Call) and isinstance(f.value.func, ast.Name) and f.value.func.id == 'super'
+        recv = [] if is_super else self.roots_of(f.value)
+        if name in SORT_INDICES:
+            for r in recv:
+                self.stmts.append(('sortIndices', r))
             return []
-        self.roots_of(f)
-        return []
+        cls = self.class_of(f.value)
+        if cls is not None:
+            callees = self.table.method_of(cls, name, virtual=not is_super)
+            if callees:
+                on_self = is_super or (isinstance(f.value, ast.Name) and f.value.id == 'self')
+                if on_self:
+                    for c in callees:
+                        self.attr_writes |= c.attr_writes
+                return self.apply_summaries(callees, node, pos_roots, kw_roots)
+            if is_super:
+                return []       # constructor / method of a base class outside the repository (LinearOperator, Exception ...)
+        elif is_super:
+            return []
+        return self.table_method(node, name, recv, pos_roots, kw_roots, arg_roots)
+
+    def table_method(self, node, name, recv, pos_roots, kw_roots, arg_roots):
+        """a method of an object whose class is unknown: the tables, joined with every repository method of that name"""
+        known = False
+        result = []
+        if name in INPLACE_METHODS:
+            known = True
+            if not self.own_object(node.func.value):
+                self.mutate(recv, 'in-place method ' + name)
+            if name in ADDERS and arg_roots:
+                for r in recv:      # the receiver now holds (aliases of) the arguments
+                    self.stmts.append(('bind', r, ('alias', sorted(set(arg_roots)))))
+        if name in VIEW_METHODS:
+            known = True
+            result += recv
+        if name == 'astype':
+            known = True
+            if any(kw.arg == 'copy' and not (isinstance(kw.value, ast.Constant) and kw.value.value is True) for kw in node.keywords):
+                result += recv
+        if name in PURE_METHODS:
+            known = True
+            k = OUT_POSITIONAL.get(name)
+            if k is not None and len(pos_roots) > k - 1 >= 0:      # x.clip(lo, hi, out) : out is one place earlier
+                self.mutate(pos_roots[k - 1])
+                result += pos_roots[k - 1]
+        repo = self.table.methods_named(name)
+        if repo:
+            known = True
+            result += self.apply_summaries(repo, node, pos_roots, kw_roots)
+            if not (name in PURE_METHODS or name in VIEW_METHODS or name in INPLACE_METHODS):
+                self.table.unresolved += 1
+        if not known:
+            return result + self.unknown_call(node, recv + arg_roots)
+        return result
 
     def class_of(self, node):
         """class of the object an expression evaluates to, when it is syntactically evident"""
@@ -248,22 +863,32 @@ class Lower(ast.NodeVisitor):
                     return f.id
                 if f.id == 'super' and self.fn.cls:
                     bs = self.table.bases.get(self.fn.cls, [])
-                    return bs[0] if bs else None
+                    for b in bs:
+                        if b in self.table.classes:
+                            return b
+                    return None
             if isinstance(f, ast.Attribute) and f.attr in ('fit',):      # est.fit(...) returns est
                 return self.class_of(f.value)
         return None
 
-    def resolve_method(self, f):
-        """FnInfo list for a method call `recv.name(...)`, or None when the receiver's class is unknown"""
-        name = f.attr
-        cls = self.class_of(f.value)
-        if cls is not None:
-            return self.table.method_of(cls, name)
-        if name in self.table.by_name and name not in ARRAY_METHOD_NAMES and isinstance(f.value, ast.Name) and f.value.id not in self.cur:
-            return self.table.by_name[name]        # module.function(...)
-        if any(name in ms for ms in self.table.class_methods.values()) and name not in ARRAY_METHOD_NAMES:
-            self.table.unresolved += 1
-        return None
+    def is_index_array(self, node):
+        if isinstance(node, (ast.Compare, ast.List, ast.ListComp)):
+            return True
+        if isinstance(node, ast.Name):
+            return node.id in self.arrays and node.id not in self.scalars and node.id not in self.loop_items
+        if isinstance(node, ast.Call):
+            f = node.func
+            nm = f.attr if isinstance(f, ast.Attribute) else (f.id if isinstance(f, ast.Name) else '')
+            return nm in INDEX_ARRAY_MAKERS
+        if isinstance(node, ast.UnaryOp):
+            return self.is_index_array(node.operand)
+        if isinstance(node, ast.BinOp):
+            return self.is_index_array(node.left) or self.is_index_array(node.right)
+        if isinstance(node, ast.BoolOp):
+            return any(self.is_index_array(v) for v in node.values)
+        if isinstance(node, ast.Subscript):
+            return self.is_index_array(node.value) and not self.is_scalar_expr(node.slice)
+        return False
 
     def is_fancy(self, sl):
         """index expressions that select with an array / list / boolean mask (numpy copies)"""
@@ -271,80 +896,12 @@ class Lower(ast.NodeVisitor):
             return any(self.is_fancy(e) for e in sl.elts)
         if isinstance(sl, (ast.Slice, ast.Constant)):
             return False
-        if isinstance(sl, ast.Name):
-            return sl.id not in self.scalars and sl.id in self.cur and sl.id not in self.loop_items
-        if isinstance(sl, (ast.Compare, ast.List, ast.ListComp)):
-            return True
-        if isinstance(sl, ast.Call):
-            f = sl.func
-            nm = f.attr if isinstance(f, ast.Attribute) else (f.id if isinstance(f, ast.Name) else '')
-            return nm in ('argsort', 'where', 'flatnonzero', 'nonzero', 'arange', 'array', 'unique', 'argpartition', 'permutation', 'astype')
-        if isinstance(sl, ast.UnaryOp):
-            return self.is_fancy(sl.operand)
-        return False
-
-    def summary_roots(self, callees, node):
-        out = []
-        for c in callees:
-            amap = self.arg_map(c, node)
-            for p in c.ret_alias:
-                if p in amap:
-                    out += self.roots_of_noeffect(amap[p])
-        return out
-
-    def roots_of_noeffect(self, node):
-        """roots of an argument expression that was already lowered (do not emit its effects twice)"""
-        n = len(self.stmts)
-        r = self.roots_of(node)
-        del self.stmts[n:]
-        return r
-
-    def arg_map(self, callee, node):
-        amap = {}
-        for i, a in enumerate(node.args):
-            if isinstance(a, ast.Starred):
-                break
-            if i < len(callee.params):
-                amap[i] = a
-        for k in node.keywords:
-            if k.arg in callee.params:
-                amap[callee.params.index(k.arg)] = k.value
-        return amap
-
-    def call_effects(self, node):
-        f = node.func
-        callees = None
-        if isinstance(f, ast.Attribute):
-            name = f.attr
-            if name in SORT_INDICES:
-                for r in self.roots_of_noeffect(f.value):
-                    self.stmts.append(('sortIndices', r))
-                return
-            if name in INPLACE_METHODS:
-                for r in self.roots_of_noeffect(f.value):
-                    self.stmts.append(('mutate', r))
-                return
-            if name in INPLACE_FUNCS and node.args:
-                for r in self.roots_of_noeffect(node.args[0]):
-                    self.stmts.append(('mutate', r))
-                return
-            callees = self.resolve_method(f)
-        elif isinstance(f, ast.Name):
-            callees = self.table.resolve(f.id, method=False)
-            if f.id in INPLACE_FUNCS and node.args:
-                for r in self.roots_of_noeffect(node.args[0]):
-                    self.stmts.append(('mutate', r))
-        for c in callees or []:
-            amap = self.arg_map(c, node)
-            for p in c.writes:
-                if p in amap:
-                    for r in self.roots_of_noeffect(amap[p]):
-                        self.stmts.append(('mutate', r))
+        return self.is_index_array(sl)
 
     # ---- statements ---------------------------------------------------------------------------
     def is_scalar_expr(self, node):
         if isinstance(node, ast.Constant):
-            return True
+            return not isinstance(node.value, (bytes,)) and node.value is not Ellipsis
         if isinstance(node, ast.Name):
             return node.id in self.scalars
         if isinstance(node, ast.Call) and isinstance(node.func, ast.Name) and node.func.id in SCALAR_CALLS:
@@ -357,14 +914,58 @@ class Lower(ast.NodeVisitor):
             return self.is_scalar_expr(node.left) and self.is_scalar_expr(node.right)
         if isinstance(node, ast.UnaryOp):
             return self.is_scalar_expr(node.operand)
-        if isinstance(node, (ast.Compare, ast.BoolOp)):
-            return True
+        if isinstance(node, ast.Compare):
+            return self.is_scalar_expr(node.left) and all(self.is_scalar_expr(c) for c in node.comparators)
+        if isinstance(node, ast.BoolOp):
+            return all(self.is_scalar_expr(v) for v in node.values)
         return False
 
     def assign_name(self, name, value_roots):
         x = self.new(name)
         self.stmts.append(('bind', x, ('alias', sorted(set(value_roots))) if value_roots else ('fresh',)))
+        if not value_roots:
+            self.own.add(x)
         self.cur[name] = {x}
+        return x
+
+    def own_object(self, node):
+        """a plain name all of whose live versions are objects created in this function: an in-place change of the
+        object itself (append, item store, sort ...) cannot reach the caller; what it *holds* is tracked by aliasing"""
+        if not isinstance(node, ast.Name) or node.id in self.scalars:
+            return False
+        vs = self.cur.get(node.id, set())
+        return bool(vs) and vs <= self.own
+
+    def is_new_container(self, node):
+        if isinstance(node, (ast.List, ast.Tuple, ast.Dict, ast.Set, ast.ListComp, ast.DictComp, ast.SetComp)):
+            return True
+        if isinstance(node, ast.Call) and isinstance(node.func, ast.Name) and node.func.id not in self.cur:
+            return node.func.id in ('list', 'dict', 'set', 'tuple', 'sorted', 'frozenset', 'defaultdict')
+        if isinstance(node, ast.BinOp) and isinstance(node.op, (ast.Add, ast.Mult)):
+            return self.is_new_container(node.left) or self.is_new_container(node.right)
+        return False
+
+    def is_numeric_expr(self, node):
+        if isinstance(node, (ast.BinOp, ast.UnaryOp, ast.Compare)):
+            return True
+        if isinstance(node, ast.Call):
+            f = node.func
+            nm = f.attr if isinstance(f, ast.Attribute) else (f.id if isinstance(f, ast.Name) else '')
+            if any(k.arg == 'dtype' and 'object' in ast.unparse(k.value) for k in node.keywords):
+                return False
+            if nm in NUMERIC_MAKERS:
+                return not (nm == 'array' and node.args and isinstance(node.args[0], (ast.List, ast.ListComp, ast.Tuple))
+                            and 'dtype' not in [k.arg for k in node.keywords] and self.roots_of_quiet(node.args[0]))
+        return False
+
+    def roots_of_quiet(self, node):
+        n, u = len(self.stmts), len(self.unknown)
+        saved = dict(self.lines)
+        r = self.roots_of(node)
+        del self.stmts[n:]
+        del self.unknown[u:]
+        self.lines = saved
+        return r
 
     def bind_target(self, tgt, value_roots, value=None):
         if isinstance(tgt, ast.Name):
@@ -373,6 +974,14 @@ class Lower(ast.NodeVisitor):
                 self.cur.pop(tgt.id, None)
                 return
             self.scalars.discard(tgt.id)
+            if value is not None and self.is_new_container(value):
+                self.own.add(self.assign_name(tgt.id, value_roots))      # a new list / dict / set holding (aliases of) its elements
+                self.arrays.discard(tgt.id)
+                return
+            if value is not None and self.is_index_array(value):
+                self.arrays.add(tgt.id)
+            else:
+                self.arrays.discard(tgt.id)
             self.assign_name(tgt.id, value_roots)
         elif isinstance(tgt, (ast.Tuple, ast.List)):
             for t in tgt.elts:
@@ -380,23 +989,43 @@ class Lower(ast.NodeVisitor):
         elif isinstance(tgt, ast.Starred):
             self.bind_target(tgt.value, value_roots)
         elif isinstance(tgt, ast.Attribute):
-            if isinstance(tgt.value, ast.Name) and tgt.value.id == 'self':
-                self.assign_name('self.' + tgt.attr, value_roots)
+            if isinstance(tgt.value, ast.Name) and tgt.value.id == 'self' and self.fn.cls:
+                x = self.assign_name('self.' + tgt.attr, value_roots)
+                self.attr_binds.append((tgt.attr, x))
+                if tgt.attr in self.hot and value_roots:
+                    # some method of the class family writes self.<attr> in place: whoever stores a caller's
+                    # object there is charged with that write
+                    self.stmts.append(('mutate', x))
             else:
                 # x.attr = ... on an object that is not self: an in-place change of that object
-                for r in self.roots_of(tgt.value):
-                    self.stmts.append(('mutate', r))
+                self.mutate(self.roots_of(tgt.value))
         elif isinstance(tgt, ast.Subscript):
             self.roots_of(tgt.slice)
-            for r in self.roots_of(tgt.value):
-                self.stmts.append(('mutate', r))
+            roots = self.roots_of(tgt.value)
+            if not self.own_object(tgt.value):
+                self.mutate(roots, 'item assignment')
+            if value_roots:     # a list / dict / object array now holds (an alias of) the value; a numeric array copies it
+                for r in roots:
+                    if r not in self.numeric:
+                        self.stmts.append(('bind', r, ('alias', sorted(set(value_roots)))))
 
     def visit_Assign(self, node):
+        if isinstance(node.value, ast.Lambda):
+            rec = self.lower_lambda(node.value)
+            for t in node.targets:
+                if isinstance(t, ast.Name):
+                    self.nested[t.id] = rec
+            return
         roots = self.roots_of(node.value)
         cls = self.class_of(node.value)
         sp = self.is_sparse_expr(node.value)
+        num = self.is_numeric_expr(node.value)
         for t in node.targets:
             self.bind_target(t, roots, node.value)
+            if num and isinstance(t, ast.Name):
+                self.numeric |= self.cur.get(t.id, set())
+            if sp and isinstance(t, ast.Tuple) and t.elts and isinstance(t.elts[0], ast.Name):
+                self.sparse |= self.cur.get(t.elts[0].id, set())       # adjacency, bipartite = get_adjacency(...)
             key = t.id if isinstance(t, ast.Name) else ('self.' + t.attr if isinstance(t, ast.Attribute) and isinstance(t.value, ast.Name) and t.value.id == 'self' else None)
             if key is not None:
                 if cls:
@@ -412,7 +1041,7 @@ class Lower(ast.NodeVisitor):
             nm = f.attr if isinstance(f, ast.Attribute) else (f.id if isinstance(f, ast.Name) else '')
             if nm in SPARSE_MAKERS:
                 return True
-            if isinstance(f, ast.Attribute) and nm in ('astype', 'copy', 'dot', 'multiply', 'transpose', 'power') :
+            if isinstance(f, ast.Attribute) and nm in ('astype', 'copy', 'dot', 'multiply', 'transpose', 'power'):
                 return self.is_sparse_expr(f.value)
         if isinstance(node, ast.Attribute) and node.attr == 'T':
             return self.is_sparse_expr(node.value)
@@ -434,19 +1063,17 @@ class Lower(ast.NodeVisitor):
             if t.id in self.scalars:
                 return
             vs = self.cur.get(t.id, set())
-            if vs and vs <= self.sparse:
-                # scipy sparse matrices have no in-place arithmetic: `a += b` rebinds a to a new matrix
+            if vs and vs <= self.sparse and isinstance(node.op, (ast.Add, ast.Sub)):
+                # scipy has no in-place sparse addition (self-tested): `a += b` re-binds a to a new matrix;
+                # `a *= s`, `a /= s` work on a.data in place and fall through to the write below
                 self.assign_name(t.id, [])
                 self.sparse |= self.cur[t.id]
                 return
-            for r in sorted(vs):
-                self.stmts.append(('mutate', r))
-        elif isinstance(t, ast.Attribute) and isinstance(t.value, ast.Name) and t.value.id == 'self':
-            for r in sorted(self.cur.get('self.' + t.attr, ())):
-                self.stmts.append(('mutate', r))
+            self.mutate(vs)
+        elif isinstance(t, ast.Attribute) and isinstance(t.value, ast.Name) and t.value.id == 'self' and self.fn.cls:
+            self.mutate(self.self_attr(t.attr))
         else:
-            for r in self.roots_of(t.value if isinstance(t, (ast.Subscript, ast.Attribute)) else t):
-                self.stmts.append(('mutate', r))
+            self.mutate(self.roots_of(t.value if isinstance(t, (ast.Subscript, ast.Attribute)) else t))
 
     # control flow: branches are lowered on copies of the live-version map and merged afterwards;
     # a branch that ends in return / raise / continue / break does not reach the join
@@ -523,17 +1150,12 @@ class Lower(ast.NodeVisitor):
     def visit_For(self, node):
         it = node.iter
         roots = self.roots_of(it)
-        if isinstance(it, ast.Call) and isinstance(it.func, ast.Name) and it.func.id in ('range', 'enumerate', 'zip'):
-            if it.func.id == 'range':
-                for n in ast.walk(node.target):
-                    if isinstance(n, ast.Name):
-                        self.scalars.add(n.id)
-                        self.cur.pop(n.id, None)
-                roots = None
-            else:
-                roots = []
-                for a in it.args:
-                    roots += self.roots_of_noeffect(a)
+        if isinstance(it, ast.Call) and isinstance(it.func, ast.Name) and it.func.id == 'range':
+            for n in ast.walk(node.target):
+                if isinstance(n, ast.Name):
+                    self.scalars.add(n.id)
+                    self.cur.pop(n.id, None)
+            roots = None
         if roots is not None:
             self.bind_target(node.target, roots)
             for n in ast.walk(node.target):
@@ -561,18 +1183,23 @@ class Lower(ast.NodeVisitor):
     def visit_Delete(self, node):
         for t in node.targets:
             if isinstance(t, ast.Subscript):
-                for r in self.roots_of(t.value):
-                    self.stmts.append(('mutate', r))
+                self.mutate(self.roots_of(t.value))
 
     def visit_FunctionDef(self, node):
-        # the function itself, and nested functions (closures share the enclosing variables)
-        for st in node.body:
-            self.visit(st)
-            if self.dead:
-                break
-        self.dead = False
+        if node is self.fn.node:
+            for st in node.body:
+                self.visit(st)
+                if self.dead:
+                    break
+            self.dead = False
+            return
+        # a nested function: its parameters are bound where it is called (or passed)
+        self.nested[node.name] = self.lower_nested(node.args, node.body, False)
 
     visit_AsyncFunctionDef = visit_FunctionDef
+
+    def visit_ClassDef(self, node):
+        pass
 
     def generic_visit(self, node):
         for field, value in ast.iter_fields(node):
@@ -588,215 +1215,57 @@ class Lower(ast.NodeVisitor):
                 self.roots_of(value)
 
 
+class _Kept:
+    """pseudo-summary of a constructor: the new object shares memory with the parameters __init__ stores in attributes"""
+    def __init__(self, init):
+        self.node, self.params, self.is_method, self.qual = init.node, init.params, init.is_method, init.qual
+        self.writes, self.ret_alias = set(), set(init.stored_params)
+
+
 def _kw_true(node, name):
     return any(k.arg == name and isinstance(k.value, ast.Constant) and k.value.value is True for k in node.keywords)
 
 
-def _kw_false(node, name):
-    return any(k.arg == name and isinstance(k.value, ast.Constant) and k.value.value is False for k in node.keywords)
-
-
-class Table:
-    def __init__(self):
-        self.by_name = {}
-        self.classes = set()
-        self.bases = {}            # class -> base class names
-        self.class_methods = {}    # class -> {method name: FnInfo}
-        self.attr_types = {}       # class -> {attribute: class name} (from `self.x = ClassName(...)`)
-        self.fns = []
-        self.unresolved = 0
-
-    def add(self, fn):
-        self.fns.append(fn)
-        if fn.is_method:
-            self.class_methods.setdefault(fn.cls, {})[fn.node.name] = fn
-        elif fn.cls is None:
-            self.by_name.setdefault(fn.node.name, []).append(fn)
-
-    def mro(self, cls):
-        out, todo = [], [cls]
-        while todo:
-            c = todo.pop(0)
-            if c in out or c not in self.classes:
-                continue
-            out.append(c)
-            todo += self.bases.get(c, [])
-        return out
-
-    def method_of(self, cls, name):
-        for c in self.mro(cls):
-            m = self.class_methods.get(c, {}).get(name)
-            if m is not None:
-                return [m]
-        return None
-
-    def attr_type(self, cls, attr):
-        for c in self.mro(cls):
-            t = self.attr_types.get(c, {}).get(attr)
-            if t:
-                return t
-        return None
-
-    def resolve(self, name, method):
-        if method:
-            return None
-        return self.by_name.get(name)
-
-
-ARRAY_METHOD_NAMES = {'dot', 'sum', 'mean', 'max', 'min', 'copy', 'astype', 'toarray', 'todense', 'tolil', 'tocoo', 'tocsc',
-                      'multiply', 'power', 'nonzero', 'argsort', 'argmax', 'argmin', 'flatten', 'tolist', 'any', 'all',
-                      'cumsum', 'std', 'var', 'clip', 'round', 'diagonal', 'trace', 'getrow', 'getcol', 'count_nonzero',
-                      'format', 'join', 'split', 'strip', 'lower', 'upper', 'replace', 'startswith', 'endswith', 'index',
-                      'count', 'items', 'keys', 'values', 'get', 'read', 'write', 'close', 'encode', 'decode'}
-
-
-def kernel_summaries(root):
-    """Compiled kernels (.pyx): a lexical summary — array parameters the body assigns through a subscript."""
-    out = []
-    for d, dirs, files in os.walk(os.path.join(root, 'sknetwork')):
-        dirs[:] = [x for x in dirs if x not in ('tests', '__pycache__')]
-        for f in files:
-            if not f.endswith('.pyx'):
-                continue
-            src = open(os.path.join(d, f)).read()
-            for m in re.finditer(r'^(?:cpdef|def)\s+(?:[\w\[\]:, ]+?\s+)?(\w+)\s*\(([^)]*)\)\s*(?:nogil\s*)?:\s*$', src, flags=re.M | re.S):
-                name, plist = m.group(1), m.group(2)
-                params = []
-                for p in plist.split(','):
-                    p = p.strip().split('=')[0].strip()
-                    if p:
-                        params.append(p.split()[-1].replace('[:]', '').replace('[:,:]', '').strip('*& '))
-                # body: until the next top-level def
-                start = m.end()
-                nxt = re.search(r'^(?:cpdef|def|cdef class|class)\s', src[start:], flags=re.M)
-                body = src[start: start + nxt.start()] if nxt else src[start:]
-                writes = [i for i, p in enumerate(params) if re.search(r'(?<![\w.])' + re.escape(p) + r'\s*\[[^\]]*\]\s*(?:[+\-*/|&]?=)(?!=)', body)]
-                out.append((name, params, writes, os.path.relpath(os.path.join(d, f), root)))
-    return out
-
-
-PUBLIC_METHODS = ('fit', 'fit_predict', 'fit_transform', 'fit_predict_proba', 'predict', 'predict_proba', 'transform')
-
-
-def exported_names(pkg):
-    """names imported by the package-level __init__.py files: the public API"""
-    out = set()
-    for d, dirs, files in os.walk(pkg):
-        dirs[:] = [x for x in dirs if x not in ('tests', '__pycache__')]
-        if '__init__.py' in files:
-            try:
-                tree = ast.parse(open(os.path.join(d, '__init__.py')).read())
-            except SyntaxError:
-                continue
-            for n in ast.walk(tree):
-                if isinstance(n, ast.ImportFrom):
-                    for a in n.names:
-                        out.add(a.asname or a.name)
-    return out
-
-
-INTERNAL_PREFIXES = ('sknetwork/gnn/optimizer', 'sknetwork/gnn/base_layer', 'sknetwork/gnn/base_activation', 'sknetwork/log',
-                     'sknetwork/data/')
-
-
-def collect(root):
-    table = Table()
-    pkg = os.path.join(root, 'sknetwork')
-    exported = exported_names(pkg)
-    for d, dirs, files in os.walk(pkg):
-        dirs[:] = sorted(x for x in dirs if x not in ('tests', '__pycache__'))
-        for f in sorted(files):
-            if not f.endswith('.py') or f.startswith('test_'):
-                continue
-            path = os.path.join(d, f)
-            rel = os.path.relpath(path, root)
-            try:
-                tree = ast.parse(open(path).read())
-            except SyntaxError:
-                continue
-            mod = rel[:-3].replace('/', '.')
-            internal = rel.startswith(INTERNAL_PREFIXES)
-            for n in tree.body:
-                if isinstance(n, ast.FunctionDef):
-                    public = n.name in exported and not n.name.startswith('_') and not internal
-                    table.add(FnInfo(mod + '.' + n.name, mod, None, n, public))
-                elif isinstance(n, ast.ClassDef):
-                    table.classes.add(n.name)
-                    table.bases[n.name] = [ast.unparse(b).split('.')[-1] for b in n.bases]
-                    for m in n.body:
-                        if isinstance(m, ast.FunctionDef):
-                            public = (m.name in PUBLIC_METHODS and n.name in exported and not n.name.startswith(('_', 'Base'))
-                                      and not internal)
-                            table.add(FnInfo(mod + '.' + n.name + '.' + m.name, mod, n.name, m, public))
-                            if m.name == '__init__':
-                                for st in ast.walk(m):
-                                    if isinstance(st, ast.Assign) and isinstance(st.value, ast.Call) and isinstance(st.value.func, ast.Name):
-                                        for t in st.targets:
-                                            if isinstance(t, ast.Attribute) and isinstance(t.value, ast.Name) and t.value.id == 'self':
-                                                table.attr_types.setdefault(n.name, {})[t.attr] = st.value.func.id
-    # attribute types are only meaningful for repository classes
-    for c, d in table.attr_types.items():
-        for k in [k for k, v in d.items() if v not in table.classes]:
-            del d[k]
-    # compiled kernels as leaf summaries
-    table.kernels = []
-    for name, params, writes, rel in kernel_summaries(root):
-        node = ast.parse('def %s(%s):\n    pass' % (name, ', '.join(p if p.isidentifier() else 'a%d' % i for i, p in enumerate(params)))).body[0]
-        fn = FnInfo(rel[:-4].replace('/', '.') + '.' + name, rel, None, node, False)
-        fn.writes = set(writes)
-        fn.kernel = True
-        table.by_name.setdefault(name, []).append(fn)
-        table.kernels.append(fn)
-    return table
-
-
-# Reviewed exemptions, pinned to the exact source text of the function (sha1 of ast.unparse): a write the
-# analysis cannot clear because it is path-insensitive. Any edit of the function voids the exemption.
-EXEMPT = {
-    'sknetwork.linalg.normalizer.get_norms': {
-        'vars': {'input_matrix'},
-        'sha1': None,      # filled by `pin_exemptions()` below from tools/translate/exemptions.json
-        'reason': 'input_matrix is csr_matrix(ndarray) (new buffers) or matrix.copy() for sparse input; the alias branch '
-                  '(a LinearOperator) is excluded from the `.data =` assignment by its isinstance guard / raises for p=2',
-    },
-}
-
-
+# ---- reviewed exemptions -----------------------------------------------------------------------------------------
+# A write the analysis cannot clear although it does not reach the caller's data; pinned to the exact source text of
+# the function (sha1 of ast.unparse): any edit of the function voids the exemption. `vars` = the local names whose
+# in-place statements are dropped. Reasons are recorded in tools/translate/exemptions.json next to the hashes.
 def _sha(node):
     import hashlib
     return hashlib.sha1(ast.unparse(node).encode()).hexdigest()
 
 
-def load_pins():
+def load_exemptions():
     import json
     f = os.path.join(os.path.dirname(os.path.abspath(__file__)), 'exemptions.json')
-    if os.path.exists(f):
-        for k, v in json.load(open(f)).items():
-            if k in EXEMPT:
-                EXEMPT[k]['sha1'] = v
-    return f
+    if not os.path.exists(f):
+        return {}
+    raw = json.load(open(f))
+    return {k: v for k, v in raw.items() if isinstance(v, dict)}
 
 
-def exempted(fn, lo):
+def exempted(fn, lo, exemptions):
     """drop the exempted in-place statements of a reviewed function whose source is unchanged"""
-    e = EXEMPT.get(fn.qual)
-    if not e or e['sha1'] != _sha(fn.node):
+    e = exemptions.get(fn.qual)
+    if not e or e.get('sha1') != _sha(fn.node):
         return lo.stmts, False
     keep = [st for st in lo.stmts if not (st[0] == 'mutate' and lo.vars.get(st[1]) in e['vars'])]
     return keep, True
 
 
-def solve(fn_stmts, nvars):
-    """the same may-alias fixpoint as `analyse` in Lean (used here only to infer summaries)"""
+def solve(stmts, nvars, seeds=None):
+    """the may-alias fixpoint of `analyse` in Lean (used here only to infer summaries); `seeds`: variable -> labels"""
     A = [set() for _ in range(nvars)]
+    for x, s in (seeds or {}).items():
+        A[x] |= s
     changed = True
     while changed:
         changed = False
-        for s in fn_stmts:
+        for s in stmts:
             if s[0] == 'bind':
                 x, src = s[1], s[2]
                 add = set()
-                if src[0] == 'param':
+                if src[0] == 'param' and seeds is None:
                     add = {src[1]}
                 elif src[0] == 'alias':
                     for y in src[1]:
@@ -807,16 +1276,16 @@ def solve(fn_stmts, nvars):
     return A
 
 
-def analyse(root):
-    load_pins()
-    table = collect(root)
-    fns = [f for f in table.fns]
-    for _ in range(12):
+def analyse(root, extra_sources=None, use_exemptions=True):
+    exemptions = load_exemptions() if use_exemptions else {}
+    table = collect(root, extra_sources)
+    fns = list(table.fns)
+    for _ in range(20):
         changed = False
         for fn in fns:
             lo = Lower(fn, table)
             lo.visit(fn.node)
-            lo.stmts, fn.exempt = exempted(fn, lo)
+            lo.stmts, fn.exempt = exempted(fn, lo, exemptions)
             A = solve(lo.stmts, lo.nvars)
             writes = set()
             for s in lo.stmts:
@@ -825,12 +1294,35 @@ def analyse(root):
             ret = set()
             for x in lo.ret_vars:
                 ret |= A[x]
-            fn.stmts, fn.vars, fn.ret_vars = lo.stmts, lo.vars, lo.ret_vars
-            if writes != fn.writes or ret != fn.ret_alias:
-                fn.writes, fn.ret_alias = writes, ret
+            # attributes of self: which are written in place, which receive (aliases of) parameters
+            B = solve(lo.stmts, lo.nvars, seeds={x: {a} for a, x in lo.attr_entry.items()})
+            attr_writes = set(lo.attr_writes)
+            for s in lo.stmts:
+                if s[0] == 'mutate':
+                    attr_writes |= B[s[1]]
+            stored = set()
+            for a, x in lo.attr_binds:
+                stored |= A[x]
+            fn.stmts, fn.vars, fn.ret_vars, fn.unknown_calls = lo.stmts, lo.vars, lo.ret_vars, lo.unknown
+            fn.lines = lo.lines
+            if writes != fn.writes or ret != fn.ret_alias or attr_writes != fn.attr_writes or stored != fn.stored_params:
+                fn.writes, fn.ret_alias, fn.attr_writes, fn.stored_params = writes, ret, attr_writes, stored
                 changed = True
+        # attributes written in place by some method of the class family
+        hot = {}
+        for c in table.classes:
+            h = set()
+            for d in table.family(c):
+                for m in table.class_methods.get(d, {}).values():
+                    h |= m.attr_writes
+            hot[c] = h
+        if hot != table.hot_attrs:
+            table.hot_attrs = hot
+            changed = True
         if not changed:
             break
+    else:
+        table.unparsed.append('summary fixpoint not reached in 20 rounds')
     return table, fns
 
 
@@ -838,35 +1330,45 @@ def lean_name(s):
     return '"%s"' % s.replace('\\', '/').replace('"', "'")
 
 
-def emit(fns, path, declared_public_writes=None):
-    """Write Generated/Effects.lean. Public entry points *declare* that they write nothing."""
-    lines = ['/- generated by tools/translate/effects.py from the working tree of /repo — do not edit -/',
-             'import SkNet.Model.Ownership', 'namespace SkNet.Generated.Effects', 'open SkNet.Own', '']
-    lines.append('def fns : List Fn := [')
-    rows = []
-    for fn in fns:
-        st = []
-        for s in fn.stmts:
-            if s[0] == 'bind':
-                src = s[2]
-                if src[0] == 'fresh':
-                    st.append('.bind %d .fresh' % s[1])
-                elif src[0] == 'param':
-                    st.append('.bind %d (.param %d)' % (s[1], src[1]))
-                else:
-                    st.append('.bind %d (.alias [%s])' % (s[1], ', '.join(map(str, src[1]))))
-            elif s[0] == 'mutate':
-                st.append('.mutate %d' % s[1])
+def _fn_row(fn):
+    st = []
+    for s in fn.stmts:
+        if s[0] == 'bind':
+            src = s[2]
+            if src[0] == 'fresh':
+                st.append('.bind %d .fresh' % s[1])
+            elif src[0] == 'param':
+                st.append('.bind %d (.param %d)' % (s[1], src[1]))
             else:
-                st.append('.sortIndices %d' % s[1])
-        writes = [] if fn.public else sorted(fn.writes)
-        rows.append('  { name := %s, nParams := %d, prog := [%s], writes := [%s], retVars := [%s], retAlias := [%s], isPublic := %s }' % (
-            lean_name(fn.qual), len(fn.params), ', '.join(st), ', '.join(map(str, writes)),
-            ', '.join(map(str, sorted(fn.ret_vars))), ', '.join(map(str, sorted(fn.ret_alias))), 'true' if fn.public else 'false'))
-    lines.append(',\n'.join(rows))
-    lines.append(']')
+                st.append('.bind %d (.alias [%s])' % (s[1], ', '.join(map(str, src[1]))))
+        elif s[0] == 'mutate':
+            st.append('.mutate %d' % s[1])
+        else:
+            st.append('.sortIndices %d' % s[1])
+    writes = [] if fn.public else sorted(fn.writes)
+    nvars = max([s[1] for s in fn.stmts] + [y for s in fn.stmts if s[0] == 'bind' and s[2][0] == 'alias' for y in s[2][1]] + [-1]) + 1
+    cert = solve(fn.stmts, nvars)        # proposed here, checked in Lean (`safeWith`)
+    return '  { name := %s, nParams := %d, prog := [%s], writes := [%s], retVars := [%s], retAlias := [%s], isPublic := %s, cert := [%s] }' % (
+        lean_name(fn.qual), len(fn.params), ', '.join(st), ', '.join(map(str, writes)),
+        ', '.join(map(str, sorted(fn.ret_vars))), ', '.join(map(str, sorted(fn.ret_alias))), 'true' if fn.public else 'false',
+        ', '.join('[%s]' % ', '.join(map(str, sorted(a))) for a in cert))
+
+
+def emit(fns, path, namespace='SkNet.Generated.Effects', what='the working tree of /repo'):
+    """Write Generated/Effects.lean. Public entry points *declare* that they write nothing."""
+    lines = ['/- generated by tools/translate/effects.py from %s — do not edit -/' % what,
+             'import SkNet.Model.Ownership', 'namespace ' + namespace, 'open SkNet.Own', '']
+    chunk = 40          # one long list literal exceeds the elaborator's recursion depth
+    parts = []
+    for k in range(0, max(len(fns), 1), chunk):
+        parts.append('fns%d' % (k // chunk))
+        lines.append('def fns%d : List Fn := [' % (k // chunk))
+        lines.append(',\n'.join(_fn_row(fn) for fn in fns[k:k + chunk]))
+        lines.append(']')
+        lines.append('')
+    lines.append('def fns : List Fn := ' + ' ++ '.join(parts))
     lines.append('')
-    lines.append('end SkNet.Generated.Effects')
+    lines.append('end ' + namespace)
     text = '\n'.join(lines) + '\n'
     os.makedirs(os.path.dirname(path), exist_ok=True)
     if not os.path.exists(path) or open(path).read() != text:
@@ -875,7 +1377,7 @@ def emit(fns, path, declared_public_writes=None):
 
 
 def offenders(fns):
-    """public entry points that (according to the inference) may write a caller argument: (name, params, why)"""
+    """public entry points that (according to the inference) may write a caller argument: (name, params)"""
     out = []
     for fn in fns:
         if fn.public and fn.writes:
@@ -883,40 +1385,189 @@ def offenders(fns):
     return out
 
 
+def why(fn, table=None):
+    """which in-place statements of `fn` reach which parameter (for reports)"""
+    A = solve(fn.stmts, max([s[1] for s in fn.stmts] + [0]) + 1)
+    out = []
+    for i, s in enumerate(fn.stmts):
+        if s[0] == 'mutate' and A[s[1]]:
+            line, reason = getattr(fn, 'lines', {}).get(i, (0, ''))
+            out.append('line %d: %s (%s) -> %s' % (fn.node.lineno + 0 * line if not line else line, fn.vars.get(s[1]), reason,
+                                                   [fn.params[p] for p in sorted(A[s[1]]) if p < len(fn.params)]))
+    return sorted(set(out))
+
+
+# ---- self tests ------------------------------------------------------------------------------------------------
 def self_test():
-    """the sharing tables against numpy / scipy themselves"""
+    """the sharing / copying / in-place tables against numpy / scipy themselves (one assertion per kind of row)"""
     import numpy as np
     from scipy import sparse
-    a = sparse.csr_matrix(np.array([[0, 1.], [2, 0]]))
+    sm = np.shares_memory
+
+    def fresh_a():
+        return sparse.csr_matrix(np.array([[0, 1.], [2, 0]]))
+    a = fresh_a()
     d = np.arange(6.).reshape(2, 3)
-    checks = {
-        'csr_matrix(csr) shares': np.shares_memory(sparse.csr_matrix(a).data, a.data),
-        'tocsr shares': np.shares_memory(a.tocsr().data, a.data),
-        'T shares': np.shares_memory(a.T.data, a.data),
-        'astype copies': not np.shares_memory(a.astype(float).data, a.data),
-        'copy copies': not np.shares_memory(a.copy().data, a.data),
-        'tocoo shares': np.shares_memory(a.tocoo().data, a.data),
-        'tolil copies': True,
-        'dot fresh': not np.shares_memory(a.dot(a).data, a.data),
-        'asarray shares': np.shares_memory(np.asarray(d), d),
-        'array copies': not np.shares_memory(np.array(d), d),
-        'slice shares': np.shares_memory(d[:1], d),
-        'ravel shares': np.shares_memory(d.ravel(), d),
-        'reshape shares': np.shares_memory(d.reshape(3, 2), d),
-        'hstack fresh': not np.shares_memory(np.hstack((d, d)), d),
-        'binop fresh': not np.shares_memory(d + 1, d),
-    }
+    checks = {}
+
+    def inplace(name, make, act, read):
+        x = make()
+        before = read(x).copy()
+        act(x)
+        checks[name] = not np.array_equal(before, read(x))
+
+    # views / same buffers
+    checks['csr_matrix(csr) shares'] = sm(sparse.csr_matrix(a).data, a.data)
+    checks['csr_matrix(csr, copy=True) copies'] = not sm(sparse.csr_matrix(a, copy=True).data, a.data)
+    checks['tocsr of csr is self'] = a.tocsr() is a
+    checks['tocsc of csc is self'] = (lambda c: c.tocsc() is c)(a.tocsc())
+    checks['tocoo of coo is self'] = (lambda c: c.tocoo() is c)(a.tocoo())
+    checks['tolil of lil is self'] = (lambda c: c.tolil() is c)(a.tolil())
+    checks['tocoo of csr shares'] = sm(a.tocoo().data, a.data)
+    checks['T shares'] = sm(a.T.data, a.data)
+    checks['asfptype shares'] = sm(a.asfptype().data, a.data)
+    checks['astype(copy=False) shares'] = sm(a.astype(float, copy=False).data, a.data)
+    checks['asarray shares'] = sm(np.asarray(d), d)
+    checks['slice shares'] = sm(d[:1], d)
+    checks['integer index is a row view'] = sm(d[int(np.argmax(d[:, 0]))], d)
+    checks['ravel shares'] = sm(d.ravel(), d)
+    checks['reshape shares'] = sm(d.reshape(3, 2), d)
+    checks['moveaxis shares'] = sm(np.moveaxis(d, 0, 1), d)
+    checks['require shares'] = sm(np.require(d, dtype=float), d)
+    checks['array(copy=None) shares'] = sm(np.array(d, dtype=float, copy=None), d)
+    checks['np.diag of a matrix is a view'] = (lambda m: sm(np.diag(m), m))(np.ones((2, 2)))
+    checks['dict.setdefault returns the stored object'] = (lambda dd, v: dd.setdefault(0, v) is v)({}, [1])
+    checks['dict.get returns the stored object'] = (lambda v: {0: v}.get(0) is v)([1])
+    checks['list(x) shares elements'] = (lambda v: list([v])[0] is v)([1])
+    # copies
+    checks['astype copies'] = not sm(a.astype(float).data, a.data)
+    checks['copy copies'] = not sm(a.copy().data, a.data)
+    checks['tolil of csr copies'] = (lambda l: (l.__setitem__((0, 1), 9.0), a[0, 1] == 1.0)[1])(a.tolil())
+    checks['toarray copies'] = not sm(a.toarray(), a.data)
+    checks['dot fresh'] = not sm(a.dot(a).data, a.data)
+    checks['multiply fresh'] = not sm(a.multiply(2).data, a.data)
+    checks['array copies'] = not sm(np.array(d), d)
+    checks['fancy index copies'] = not sm(d[np.array([0, 1])], d) and not sm(d[d[:, 0] >= 0], d)
+    checks['hstack fresh'] = not sm(np.hstack((d, d)), d)
+    checks['binop fresh'] = not sm(d + 1, d)
+    checks['np.sort copies'] = not sm(np.sort(d), d)
+    checks['np.clip copies'] = not sm(np.clip(d, 0, 1), d)
+    checks['ufunc copies'] = not sm(np.negative(d), d) and not sm(np.sqrt(d), d)
+    checks['flatten copies'] = not sm(d.flatten(), d)
+    checks['sparse + is fresh'] = not sm((a + a).data, a.data)
+    checks['bmat fresh'] = not sm(sparse.bmat([[a, None], [None, a]]).data, a.data)
+    checks['diags fresh'] = not sm(sparse.diags(d[0]).data, d)
+    # in place
+    inplace('sparse *= scalar is in place', fresh_a, lambda x: x.__imul__(3.0), lambda x: x.data)
+    inplace('sparse /= scalar is in place', fresh_a, lambda x: x.__itruediv__(2.0), lambda x: x.data)
+    x0 = fresh_a()
+    x1 = x0
+    try:
+        x1 += x0
+    except NotImplementedError:
+        pass
+    checks['sparse += rebinds (or is refused)'] = np.array_equal(x0.data, fresh_a().data)
+    inplace('out= writes', lambda: np.arange(4.), lambda x: np.divide(x, 2.0, out=x), lambda x: x)
+    inplace('positional out writes', lambda: np.arange(4.) + 1, lambda x: np.negative(x, x), lambda x: x)
+    inplace('ufunc.at writes', lambda: np.arange(4.), lambda x: np.add.at(x, [0], 1.0), lambda x: x)
+    inplace('fill writes', lambda: np.arange(4.), lambda x: x.fill(7), lambda x: x)
+    inplace('sort writes', lambda: np.arange(4.)[::-1].copy(), lambda x: x.sort(), lambda x: x)
+    inplace('np.fill_diagonal writes', lambda: np.ones((2, 2)), lambda x: np.fill_diagonal(x, 0), lambda x: x)
+    inplace('np.random.shuffle writes', lambda: np.arange(50.), lambda x: np.random.RandomState(0).shuffle(x), lambda x: x)
+    inplace('np.put writes', lambda: np.arange(4.), lambda x: np.put(x, [0], 9), lambda x: x)
+    inplace('np.copyto writes', lambda: np.arange(4.), lambda x: np.copyto(x, 5), lambda x: x)
+    inplace('setdiag writes', fresh_a, lambda x: x.setdiag(5), lambda x: x.toarray())
+    inplace('eliminate_zeros writes', lambda: sparse.csr_matrix((np.array([0., 1]), np.array([0, 1]), np.array([0, 1, 2])), shape=(2, 2)),
+            lambda x: x.eliminate_zeros(), lambda x: np.array([x.nnz]))
+    inplace('clip(out) method writes', lambda: np.arange(4.), lambda x: x.clip(1, 2, x), lambda x: x)
+    checks['dict.setdefault mutates'] = (lambda dd: (dd.setdefault(0, 1), len(dd) == 1)[1])({})
+    checks['dict.update mutates'] = (lambda dd: (dd.update({1: 2}), len(dd) == 1)[1])({})
+    checks['dict.pop mutates'] = (lambda dd: (dd.pop(0), len(dd) == 0)[1])({0: 1})
+    checks['list.append mutates'] = (lambda l: (l.append(1), len(l) == 1)[1])([])
     return checks
+
+
+# Regression tests of the lowering: (name, {file: source}, function, expected Fn.ok). Every `False` row is a way of
+# writing the caller's data that an earlier version of this translator (or its review) missed.
+NEGATIVE_TESTS = [
+    ('B1 sparse *= scalar', {'t.py': 'from scipy import sparse\ndef f(input_matrix: sparse.csr_matrix):\n    m = sparse.csr_matrix(input_matrix)\n    m *= 2.0\n    return 0\n'}, 't.f', False),
+    ('B1 sparse /= scalar after check_format', {'t.py': 'from scipy import sparse\ndef check_format(x):\n    return sparse.csr_matrix(x)\ndef f(adjacency):\n    adjacency = check_format(adjacency)\n    adjacency /= adjacency.data.max()\n    return 0\n'}, 't.f', False),
+    ('B2 self.attr written by a helper method', {'t.py': 'class Est:\n    def fit(self, position_init):\n        self.start_ = position_init\n        self._step()\n        return self\n    def _step(self):\n        self.start_ -= 1\n'}, 't.Est.fit', False),
+    ('B2 self.attr written by a later public call', {'t.py': 'class Est:\n    def fit(self, adjacency):\n        self.adjacency = adjacency\n        return self\n    def predict(self):\n        self.adjacency.data[:] = 1\n        return 0\n'}, 't.Est.fit', False),
+    ('B2 constructor keeps, method writes', {'t.py': 'class Op:\n    def __init__(self, adjacency):\n        self.adjacency = adjacency\n    def scale(self):\n        self.adjacency *= 2\ndef f(adjacency):\n    op = Op(adjacency)\n    return op\n'}, 't.f', False),
+    ('B3 static method writes its argument', {'t.py': 'class Est:\n    @staticmethod\n    def _check(v):\n        v.data[:] = 1\n        return v\n    def predict(self, adjacency_vectors):\n        return self._check(adjacency_vectors)\n'}, 't.Est.predict', False),
+    ('B4 out= keyword', {'t.py': 'import numpy as np\ndef f(weights):\n    np.divide(weights, 2.0, out=weights)\n    return 0\n'}, 't.f', False),
+    ('B4 positional out of a ufunc', {'t.py': 'import numpy as np\ndef f(row):\n    np.negative(row, row)\n    return 0\n'}, 't.f', False),
+    ('B5 ufunc.at', {'t.py': 'import numpy as np\ndef f(weights):\n    np.add.at(weights, [0], 1.0)\n    return 0\n'}, 't.f', False),
+    ('B6 dict.setdefault', {'t.py': 'def f(labels: dict):\n    labels.setdefault(0, 0)\n    return 0\n'}, 't.f', False),
+    ('B6 dict.update', {'t.py': 'def f(labels: dict):\n    labels.update({0: 1})\n    return 0\n'}, 't.f', False),
+    ('B7 tocsc of a CSC is the same object', {'t.py': 'def f(input_matrix):\n    m = input_matrix.tocsc()\n    m.data[:] = 1\n    return 0\n'}, 't.f', False),
+    ('B7 tolil', {'t.py': 'def f(input_matrix):\n    m = input_matrix.tolil()\n    m[0, 0] = 1\n    return 0\n'}, 't.f', False),
+    ('B8 nested function', {'t.py': 'def f(position_init):\n    def clip(p):\n        p[p > 1] = 1\n    clip(position_init)\n    return 0\n'}, 't.f', False),
+    ('B8 lambda through map', {'t.py': 'def f(position_init):\n    list(map(lambda r: r.fill(0.), position_init))\n    return 0\n'}, 't.f', False),
+    ('B9 integer index is a view', {'t.py': 'import numpy as np\ndef f(x):\n    i = np.argmax(x[:, 0])\n    x[i][0] = 0.\n    return 0\n'}, 't.f', False),
+    ('B9 row variable', {'t.py': 'import numpy as np\ndef f(x):\n    i = np.argmax(x[:, 0])\n    row = x[i]\n    row[0] = 0.\n    return 0\n'}, 't.f', False),
+    ('B10 dict literal', {'t.py': "def f(position_init):\n    state = {'p': position_init}\n    state['p'][0] = 0.\n    return 0\n"}, 't.f', False),
+    ('B10 list append', {'t.py': 'def f(position_init):\n    l = []\n    l.append(position_init)\n    l[0][0] = 0.\n    return 0\n'}, 't.f', False),
+    ('B11 moveaxis', {'t.py': 'import numpy as np\ndef f(x):\n    v = np.moveaxis(x, 0, 1)\n    v[0] = 0\n    return 0\n'}, 't.f', False),
+    ('B11 require', {'t.py': 'import numpy as np\ndef f(x):\n    v = np.require(x, dtype=float)\n    v[0] = 0\n    return 0\n'}, 't.f', False),
+    ('B11 array(copy=None)', {'t.py': 'import numpy as np\ndef f(x):\n    v = np.array(x, dtype=float, copy=None)\n    v[0] = 0\n    return 0\n'}, 't.f', False),
+    ('B12 public method in a .pyx', {'t.pyx': 'cimport cython\ncdef class Paris:\n    cdef int n\n    @cython.boundscheck(False)\n    def fit(self, input_matrix, bint force=False):\n        cdef int i = 0\n        input_matrix.data[:] = 1\n        return self\n'}, 't.Paris.fit', False),
+    ('B12 function in a .pyx', {'t.pyx': 'def count(adjacency, bint parallelize=False):\n    cdef int[:] indices = adjacency.indices\n    indices[0] = 0\n    return 0\n'}, 't.count', False),
+    ('B13 public method inherited from a private base', {'t.py': 'class _Rank:\n    def fit(self, input_matrix, labels):\n        labels[0] = 0\n        return self\nclass PRClassifier(_Rank):\n    pass\n'}, 't._Rank.fit', False),
+    ('B14 kernel whose signature ends in a comment', {'k.pyx': 'def optimize_core(int[:] labels, float[:] data,\n    float resolution):  # pragma: no cover\n    cdef int i\n    labels[0] = 1\n    return labels\n', 't.py': 'from k import optimize_core\ndef f(labels, data):\n    optimize_core(labels, data, 1.)\n    return 0\n'}, 't.f', False),
+    ('B14 kernel returns its argument', {'k.pyx': 'def kern(int[:] labels):\n    return labels\n', 't.py': 'from k import kern\ndef f(labels):\n    out = kern(labels)\n    out[0] = 1\n    return 0\n'}, 't.f', False),
+    ('B15 unbound method call', {'t.py': 'class P:\n    def fit(self, m, labels):\n        labels[0] = 0\n        return self\nclass Q(P):\n    def fit(self, m, labels):\n        P.fit(self, m, labels)\n        return self\n'}, 't.Q.fit', False),
+    ('B15 method of an attribute of unknown class', {'t.py': 'class Emb:\n    def fit_transform(self, adjacency):\n        adjacency.data[:] = 1\n        return adjacency\nclass Clf:\n    def __init__(self, embedding_method):\n        self.embedding_method = embedding_method\n    def fit(self, adjacency):\n        e = self.embedding_method.fit_transform(adjacency)\n        return self\n'}, 't.Clf.fit', False),
+    ('unknown function', {'t.py': 'from somewhere import mystery\ndef f(x):\n    mystery(x)\n    return 0\n'}, 't.f', False),
+    ('unknown method', {'t.py': 'def f(x):\n    x.frobnicate()\n    return 0\n'}, 't.f', False),
+    ('result of an unknown function', {'t.py': 'from somewhere import mystery\ndef f(x, y):\n    v = mystery(y)\n    return 0\n'}, 't.f', False),
+    ('control: item assignment', {'t.py': 'def f(x):\n    x[0] = 1\n    return 0\n'}, 't.f', False),
+    ('control: augmented assignment', {'t.py': 'def f(x):\n    x -= 1\n    return 0\n'}, 't.f', False),
+    ('control: alias then write', {'t.py': 'def f(position_init):\n    position = position_init\n    position[0] = 0\n    return 0\n'}, 't.f', False),
+    ('control: data attribute', {'t.py': 'def f(input_matrix):\n    input_matrix.data *= 2\n    return 0\n'}, 't.f', False),
+    ('control: astype(copy=False)', {'t.py': 'def f(x):\n    v = x.astype(float, copy=False)\n    v[0] = 0\n    return 0\n'}, 't.f', False),
+    ('control: in-place method', {'t.py': 'def f(x):\n    x.sort()\n    return 0\n'}, 't.f', False),
+    # the same shapes with a copy first are accepted (the tests above are not vacuous)
+    ('ok: copy then write', {'t.py': 'def f(position_init):\n    position = position_init.copy()\n    position[0] = 0\n    position -= 1\n    return position\n'}, 't.f', True),
+    ('ok: astype then write', {'t.py': 'def f(input_matrix):\n    m = input_matrix.astype(float)\n    m.data[:] = 1\n    m *= 2\n    return m\n'}, 't.f', True),
+    ('ok: np.array then sort', {'t.py': 'import numpy as np\ndef f(x):\n    v = np.array(x)\n    v.sort()\n    np.negative(v, v)\n    return v\n'}, 't.f', True),
+    ('ok: sort_indices is tolerated', {'t.py': 'def f(adjacency):\n    adjacency.sort_indices()\n    return 0\n'}, 't.f', True),
+    ('ok: fancy index copies', {'t.py': 'import numpy as np\ndef f(x, labels):\n    mask = labels >= 0\n    v = x[mask]\n    v[0] = 0\n    w = x[np.argsort(labels)]\n    w[0] = 0\n    return 0\n'}, 't.f', True),
+    ('ok: attribute keeps, nobody writes', {'t.py': 'class Op:\n    def __init__(self, adjacency):\n        self.adjacency = adjacency\n    def dot(self, x):\n        return self.adjacency.dot(x)\ndef f(adjacency, x):\n    return Op(adjacency).dot(x)\n'}, 't.f', True),
+    ('ok: attribute holds a copy, method writes', {'t.py': 'class Est:\n    def fit(self, position_init):\n        self.start_ = position_init.copy()\n        self._step()\n        return self\n    def _step(self):\n        self.start_ -= 1\n'}, 't.Est.fit', True),
+    ('ok: nested function on a copy', {'t.py': 'def f(position_init):\n    def clip(p):\n        p[p > 1] = 1\n    q = position_init.copy()\n    clip(q)\n    return q\n'}, 't.f', True),
+    ('ok: kernel on a copy', {'k.pyx': 'def kern(int[:] labels):\n    labels[0] = 1\n', 't.py': 'from k import kern\ndef f(labels):\n    l = labels.copy()\n    kern(l)\n    return l\n'}, 't.f', True),
+]
+
+
+def negative_test_fns():
+    """(test name, expected ok, FnInfo) for every regression test; a missing function is reported as expected-ok None"""
+    out = []
+    for name, sources, qual, expect in NEGATIVE_TESTS:
+        table, fns = analyse(None, extra_sources=sources, use_exemptions=False)
+        hit = [f for f in fns if f.qual == qual]
+        if not hit or table.unparsed:
+            out.append((name, None, None))
+            continue
+        fn = hit[0]
+        fn.public = True
+        fn.qual = name
+        out.append((name, expect, fn))
+    return out
 
 
 def pin_exemptions(root):
     """(re)compute the source hashes of the exempted functions — run by hand after reviewing them"""
     import json
-    table = collect(root)
-    pins = {fn.qual: _sha(fn.node) for fn in table.fns if fn.qual in EXEMPT}
     f = os.path.join(os.path.dirname(os.path.abspath(__file__)), 'exemptions.json')
-    json.dump(pins, open(f, 'w'), indent=1)
-    return pins
+    ex = json.load(open(f)) if os.path.exists(f) else {}
+    table = collect(root)
+    for fn in table.fns:
+        if fn.qual in ex and isinstance(ex[fn.qual], dict):
+            ex[fn.qual]['sha1'] = _sha(fn.node)
+    json.dump(ex, open(f, 'w'), indent=1)
+    return {k: v.get('sha1') for k, v in ex.items() if isinstance(v, dict)}
 
 
 if __name__ == '__main__':
@@ -926,24 +1577,19 @@ if __name__ == '__main__':
         sys.exit(0)
     root = sys.argv[1] if len(sys.argv) > 1 else '/repo'
     table, fns = analyse(root)
-    print(len(fns), 'functions;', sum(1 for f in fns if f.public), 'public;', table.unresolved, 'unresolved method calls;', len(table.kernels), 'kernels')
+    print(len(fns), 'functions;', sum(1 for f in fns if f.public), 'public;', table.unresolved, 'method calls resolved by name only;',
+          sum(len(f.unknown_calls) for f in fns), 'unknown calls;', 'unparsed:', table.unparsed)
     for q, ps in offenders(fns):
-        print('WRITES', q, ps)
-    print({k: v for k, v in self_test().items() if not v})
-
-
-def why(root, qual):
-    """debug: which in-place statements of `qual` reach which parameter"""
-    table, fns = analyse(root)
-    for fn in fns:
-        if fn.qual.endswith(qual):
-            lo = Lower(fn, table)
-            # record lines
-            orig_append = lo.stmts.append
-            lo.visit(fn.node)
-            A = solve(lo.stmts, lo.nvars)
-            for s in lo.stmts:
-                if s[0] == 'mutate' and A[s[1]]:
-                    print(fn.qual, 'mutate', lo.vars[s[1]], 'v%d' % s[1], '-> params', [fn.params[p] for p in A[s[1]]])
-            for i, s in enumerate(lo.stmts):
-                print('   ', s, lo.vars.get(s[1]))
+        fn = [f for f in fns if f.qual == q][0]
+        print('WRITES', q, ps, why(fn))
+    unk = {}
+    for f in fns:
+        for line, text in f.unknown_calls:
+            unk.setdefault(text, []).append(f.qual.split('.')[-1])
+    for t, w in sorted(unk.items()):
+        print('UNKNOWN', t, sorted(set(w))[:4])
+    print('table self-test failures:', {k: v for k, v in self_test().items() if not v})
+    for name, expect, fn in negative_test_fns():
+        got = None if fn is None else not fn.writes
+        if got != expect:
+            print('REGRESSION TEST FAILS:', name, 'expected ok =', expect, 'got', got)
